@@ -399,19 +399,18 @@ Proof.
 Qed.
 
 (* ====================================================================================================== *)
-(*  Condition, lock side: the embedded lock satisfies its invariant and agrees with the condition's       *)
-(*  phases and recorded owner                                                                             *)
+(*  Conditions on a shared lock, lock side: the shared lock satisfies its invariant and agrees with the    *)
+(*  phases of the tasks                                                                                   *)
 (* ====================================================================================================== *)
-Definition lock_idle (p : cphase) : bool := match p with PIdle | PWait _ => true | _ => false end.
+Definition lock_idle (p : cphase) : bool := match p with PIdle | PWait _ _ => true | _ => false end.
 
-Record LkI (l : Lock.st) (O : option tid) (ph : tid -> cphase) : Prop := {
+Record LkI (l : Lock.st) (ph : tid -> cphase) : Prop := {
   K_lock : Inv l;
   K_coupling : forall t, phase_of l t = Idle <-> lock_idle (ph t) = true;
-  K_owner : forall t, O = Some t <-> In t (held l);
   K_heldidle : forall t, In t (held l) -> ph t = PIdle
 }.
 
-Definition LkInv (s : cst) : Prop := LkI (lk s) (owner_rec s) (cphase_of s).
+Definition LkInv (s : cst) : Prop := LkI (lk s) (cphase_of s).
 
 Lemma held_unique l a b : Inv l -> In a (held l) -> In b (held l) -> a = b.
 Proof.
@@ -420,42 +419,30 @@ Proof.
   assert (owner l = Some b) by (apply (I_owner l I); left; exact Hb). congruence.
 Qed.
 
-Lemma LK_generic l O ph t l' O' ph' :
-  LkI l O ph -> Inv l' ->
+(* for a task at a decision point "is the lock's owner" and "acquire returned to it and it has not released"
+   coincide *)
+Lemma owner_iff_held l ph t : LkI l ph -> ph t = PIdle -> (owner l = Some t <-> In t (held l)).
+Proof.
+  intros K Hp. assert (Hli : phase_of l t = Idle) by (apply (K_coupling _ _ K); rewrite Hp; reflexivity).
+  rewrite (I_owner l (K_lock _ _ K) t). unfold holdish. split; [|tauto].
+  intros [H|[H|(f & H & _)]]; [exact H|congruence|congruence].
+Qed.
+
+Lemma LK_generic l ph t l' ph' :
+  LkI l ph -> Inv l' ->
   (forall x, x <> t -> phase_of l' x = phase_of l x) ->
   (forall x, x <> t -> (In x (held l') <-> In x (held l))) ->
   (forall x, x <> t -> ph' x = ph x) ->
   (phase_of l' t = Idle <-> lock_idle (ph' t) = true) ->
   (In t (held l') -> ph' t = PIdle) ->
-  (forall x, O' = Some x <-> In x (held l')) ->
-  LkI l' O' ph'.
+  LkI l' ph'.
 Proof.
-  intros K I' Fp Fh Fph Ht Hh HO. constructor.
+  intros K I' Fp Fh Fph Ht Hh. constructor.
   - exact I'.
   - intros x. destruct (Nat.eq_dec x t) as [->|Hx]; [exact Ht|].
-    rewrite Fp, Fph by assumption. apply (K_coupling _ _ _ K).
-  - exact HO.
+    rewrite Fp, Fph by assumption. apply (K_coupling _ _ K).
   - intros x Hin. destruct (Nat.eq_dec x t) as [->|Hx]; [auto|].
-    rewrite Fph by assumption. apply (K_heldidle _ _ _ K). now apply Fh.
-Qed.
-
-Lemma own_acq l' t : Inv l' -> In t (held l') -> forall x, Some t = Some x <-> In x (held l').
-Proof.
-  intros I Ht x. split; [intros [= <-]; exact Ht|]. intros Hx. f_equal. eapply held_unique; eauto.
-Qed.
-
-Lemma own_same l O ph l' :
-  LkI l O ph -> (forall x, In x (held l') <-> In x (held l)) -> forall x, O = Some x <-> In x (held l').
-Proof. intros K F x. rewrite F. apply (K_owner _ _ _ K). Qed.
-
-Lemma own_clear l O ph t l' :
-  LkI l O ph -> In t (held l) -> ~ In t (held l') ->
-  (forall x, x <> t -> (In x (held l') <-> In x (held l))) ->
-  forall x, None = Some x <-> In x (held l').
-Proof.
-  intros K Ht Hn F x. split; [discriminate|]. intros Hx. exfalso.
-  destruct (Nat.eq_dec x t) as [->|Hne]; [contradiction|].
-  apply Hne. eapply held_unique; [apply (K_lock _ _ _ K)| |exact Ht]. now apply F.
+    rewrite Fph by assumption. apply (K_heldidle _ _ K). now apply Fh.
 Qed.
 
 Lemma upd_other_fun {A} (f : nat -> A) t v : forall x, x <> t -> upd f t v x = f x.
@@ -465,277 +452,261 @@ Lemma c_is_idle_true p : c_is_idle p = true <-> p = PIdle.
 Proof. destruct p; cbn; split; congruence. Qed.
 
 Ltac cnorm :=
-  cbn [with_lk with_owner with_cw with_phase with_efut with_inflight with_counts
-       lk owner_rec cphase_of pinned cwaiters eset efut nev cenq setlog inflight issued consumed dropped lost].
+  cbn [with_lk with_owner with_cw with_phase with_efut with_inflight with_nlog with_counts
+       variant lk owner_rec cwaiters eset efut nev cphase_of cenq setlog inflight horizon nlog
+       issued consumed dropped lost].
 
-Lemma do_set_proj s e :
-  lk (do_set s e) = lk s /\ owner_rec (do_set s e) = owner_rec s /\ cphase_of (do_set s e) = cphase_of s /\
-  pinned (do_set s e) = pinned s.
+Lemma do_set_proj s e hz :
+  lk (do_set s e hz) = lk s /\ cphase_of (do_set s e hz) = cphase_of s /\ variant (do_set s e hz) = variant s.
 Proof. unfold do_set. destruct (eset s e); cbn; auto. Qed.
 
-Lemma notify_loop_proj n : forall s,
-  lk (notify_loop n s) = lk s /\ owner_rec (notify_loop n s) = owner_rec s /\
-  cphase_of (notify_loop n s) = cphase_of s /\ pinned (notify_loop n s) = pinned s.
+Lemma notify_loop_proj n c hz : forall s,
+  lk (notify_loop n c hz s) = lk s /\ cphase_of (notify_loop n c hz s) = cphase_of s /\
+  variant (notify_loop n c hz s) = variant s.
 Proof.
   induction n as [|k IH]; intros s; cbn [notify_loop]; [auto|].
-  destruct (cwaiters s) as [|e r]; [auto|].
-  match goal with |- context [notify_loop k ?x] => destruct (IH x) as (-> & -> & -> & ->) end.
-  cnorm. destruct (do_set_proj (with_cw s r) e) as (-> & -> & -> & ->). cnorm. auto.
+  destruct (cwaiters s c) as [|e r]; [auto|].
+  match goal with |- context [notify_loop k c hz ?x] => destruct (IH x) as (-> & -> & ->) end.
+  cnorm. destruct (do_set_proj (with_cw s c r) e hz) as (-> & -> & ->). cnorm. auto.
 Qed.
 
-Lemma wait_interrupted_proj s e :
-  lk (wait_interrupted s e) = lk s /\ owner_rec (wait_interrupted s e) = owner_rec s /\
-  cphase_of (wait_interrupted s e) = cphase_of s /\ pinned (wait_interrupted s e) = pinned s.
+Lemma do_notify_proj s c n :
+  lk (do_notify s c n) = lk s /\ cphase_of (do_notify s c n) = cphase_of s /\
+  variant (do_notify s c n) = variant s.
+Proof. unfold do_notify. destruct (notify_loop_proj n c (nev s) (with_nlog s (nlog s ++ [nev s]))) as (-> & -> & ->). cnorm. auto. Qed.
+
+Lemma wait_interrupted_proj s c e :
+  lk (wait_interrupted s c e) = lk s /\ cphase_of (wait_interrupted s c e) = cphase_of s /\
+  variant (wait_interrupted s c e) = variant s.
 Proof.
   unfold wait_interrupted. destruct (eset s e); [|cnorm; auto].
-  destruct (cwaiters s) as [|h r]; [cnorm; auto|].
-  cnorm. destruct (do_set_proj (with_cw s r) h) as (-> & -> & -> & ->). cnorm. auto.
+  destruct (cwaiters s c) as [|h r]; [cnorm; auto|].
+  cnorm. destruct (do_set_proj (with_cw s c r) h (horizon s e)) as (-> & -> & ->). cnorm. auto.
 Qed.
 
-Lemma finish_wait_proj s t e exc l' r :
-  lk (fst (finish_wait s t e exc l' r)) = l' /\
-  pinned (fst (finish_wait s t e exc l' r)) = pinned s /\
-  owner_rec (fst (finish_wait s t e exc l' r)) = (match r with RDone => Some t | _ => owner_rec s end) /\
-  cphase_of (fst (finish_wait s t e exc l' r)) =
-    upd (cphase_of s) t (match r with RBlocked => PReacq e exc | _ => PIdle end).
+Lemma finish_wait_proj s t c e exc l' r :
+  lk (fst (finish_wait s t c e exc l' r)) = l' /\
+  variant (fst (finish_wait s t c e exc l' r)) = variant s /\
+  cphase_of (fst (finish_wait s t c e exc l' r)) =
+    upd (cphase_of s) t (match r with RBlocked => PReacq c e exc | _ => PIdle end).
 Proof. destruct r, exc; cbn; auto. Qed.
 
-Lemma LK_finish l O ph t l' r e exc :
-  LkI l O ph -> Inv l' ->
+Lemma LK_finish l ph t l' r c e exc :
+  LkI l ph -> Inv l' ->
   (forall x, x <> t -> phase_of l' x = phase_of l x) ->
   (forall x, x <> t -> (In x (held l') <-> In x (held l))) ->
-  ~ In t (held l) ->
   match r with
-  | RDone => In t (held l') /\ phase_of l' t = Idle
+  | RDone => phase_of l' t = Idle
   | RBlocked => phase_of l' t <> Idle /\ ~ In t (held l')
-  | _ => ~ In t (held l') /\ phase_of l' t = Idle
+  | _ => phase_of l' t = Idle
   end ->
-  LkI l' (match r with RDone => Some t | _ => O end)
-      (upd ph t (match r with RBlocked => PReacq e exc | _ => PIdle end)).
+  LkI l' (upd ph t (match r with RBlocked => PReacq c e exc | _ => PIdle end)).
 Proof.
-  intros K I' Fp Fh Hn R.
-  assert (Hsame : ~ In t (held l') -> forall x, In x (held l') <-> In x (held l)).
-  { intros Hn' x. destruct (Nat.eq_dec x t) as [->|Hx]; [tauto|now apply Fh]. }
-  destruct r; destruct R as [R1 R2];
-    (eapply (LK_generic l O ph t); [exact K|exact I'|exact Fp|exact Fh|apply upd_other_fun| | |]);
+  intros K I' Fp Fh R.
+  destruct r; (eapply (LK_generic l ph t); [exact K|exact I'|exact Fp|exact Fh|apply upd_other_fun| |]);
     rewrite ?upd_same; cbn [lock_idle].
-  all: try (split; intros; [reflexivity|exact R2]).
+  all: try (split; intros; [reflexivity|exact R]).
   all: try (intros; reflexivity).
-  all: try (apply own_acq; assumption).
-  all: try (eapply own_same; [exact K|apply Hsame; assumption]).
-  all: try (split; [intros H; contradiction|discriminate]).
-  all: try (intros H; contradiction).
+  all: destruct R as [R1 R2].
+  - split; [intros H; contradiction|discriminate].
+  - intros H; contradiction.
 Qed.
 
-Lemma LK_mustc l O ph t b : LkI l O ph -> LkI (set_mustc l t b) O ph.
+Lemma LK_mustc l ph t b : LkI l ph -> LkI (set_mustc l t b) ph.
 Proof.
-  intros K. destruct K as [K1 K2 K3 K4]. constructor; cbn; auto.
+  intros K. destruct K as [K1 K2 K3]. constructor; cbn; auto.
   unfold set_mustc. apply mustc_irrel, K1.
 Qed.
 
-Lemma not_held_if_not_pidle l O ph t : LkI l O ph -> ph t <> PIdle -> ~ In t (held l).
-Proof. intros K Hp Hin. apply Hp. apply (K_heldidle _ _ _ K), Hin. Qed.
+Lemma not_held_if_not_pidle l ph t : LkI l ph -> ph t <> PIdle -> ~ In t (held l).
+Proof. intros K Hp Hin. apply Hp. apply (K_heldidle _ _ K), Hin. Qed.
 
-Lemma wait_interrupted_proj3 s t e :
-  lk (wait_interrupted (with_lk s (set_mustc (lk s) t false)) e) = set_mustc (lk s) t false /\
-  owner_rec (wait_interrupted (with_lk s (set_mustc (lk s) t false)) e) = owner_rec s /\
-  cphase_of (wait_interrupted (with_lk s (set_mustc (lk s) t false)) e) = cphase_of s.
+Lemma wait_interrupted_proj3 s t c e :
+  lk (wait_interrupted (with_lk s (set_mustc (lk s) t false)) c e) = set_mustc (lk s) t false /\
+  cphase_of (wait_interrupted (with_lk s (set_mustc (lk s) t false)) c e) = cphase_of s.
 Proof.
-  destruct (wait_interrupted_proj (with_lk s (set_mustc (lk s) t false)) e) as (-> & -> & -> & _).
+  destruct (wait_interrupted_proj (with_lk s (set_mustc (lk s) t false)) c e) as (-> & -> & _).
   cnorm. auto.
 Qed.
 
-Lemma lk_resume_wait s t e x s1 :
-  LkInv s -> cphase_of s t = PWait e ->
-  (lk s1 = set_mustc (lk s) t false /\ owner_rec s1 = owner_rec s /\ cphase_of s1 = cphase_of s) ->
-  LkInv (fst (let '(l', r) := Lock.step (lk s1) (AcqBegin t) in finish_wait s1 t e x l' r)).
+Lemma lk_acquire_begin s oc t o :
+  LkInv s -> (o = AcqBegin t \/ o = AcqNowait t) -> cphase_of s t = PIdle ->
+  LkInv (fst (acquire_begin s oc t o)).
 Proof.
-  intros K Ep (P1 & P2 & P3). unfold LkInv in K.
-  pose proof (LK_mustc _ _ _ t false K) as K0.
-  assert (Hli : phase_of (set_mustc (lk s) t false) t = Idle)
-    by (apply (K_coupling _ _ _ K0); rewrite Ep; reflexivity).
-  assert (Hnh : ~ In t (held (set_mustc (lk s) t false)))
-    by (eapply not_held_if_not_pidle; [exact K0|congruence]).
-  rewrite P1.
-  destruct (Lock.step (set_mustc (lk s) t false) (AcqBegin t)) as [l' r] eqn:E.
-  destruct (lstep_frames _ _ _ _ (K_lock _ _ _ K0) E) as (I' & Fp & Fh & Fm); cbn [lop_task] in *.
-  pose proof (lstep_acq_res _ t _ _ _ (or_introl eq_refl) Hli E) as R.
-  unfold LkInv. destruct (finish_wait_proj s1 t e x l' r) as (-> & _ & -> & ->).
-  rewrite P2, P3. apply (LK_finish (set_mustc (lk s) t false)); auto.
-  destruct r; try contradiction; try tauto.
-  - destruct R as (R1 & R2 & _). split; [exact R1|now rewrite R2].
-  - destruct R as [-> _]. tauto.
-  - subst l'. tauto.
+  intros K Ho Ei. unfold LkInv in K. unfold acquire_begin.
+  assert (Hli : phase_of (lk s) t = Idle) by (apply (K_coupling _ _ K); rewrite Ei; reflexivity).
+  destruct (Lock.step (lk s) o) as [l' r] eqn:E.
+  destruct (lstep_frames _ _ _ _ (K_lock _ _ K) E) as (I' & Fp & Fh & Fm).
+  assert (Hlt : lop_task o = t) by (destruct Ho as [-> | ->]; reflexivity). rewrite Hlt in *.
+  pose proof (lstep_acq_res _ t _ _ _ Ho Hli E) as R.
+  destruct r; try contradiction; cbn [fst]; unfold LkInv; cnorm.
+  - destruct R as [Rh Rp].
+    eapply (LK_generic _ _ t); [exact K|exact I'|exact Fp|exact Fh|reflexivity| |].
+    + rewrite Ei. cbn. split; intros; [reflexivity|exact Rp].
+    + intros _. exact Ei.
+  - destruct R as (Rp & Rh & _).
+    assert (Hn : ~ In t (held l')).
+    { intros H. apply Rp. apply (I_heldidle l' I'), H. }
+    eapply (LK_generic _ _ t); [exact K|exact I'|exact Fp|exact Fh|apply upd_other_fun| |].
+    + rewrite upd_same. cbn. split; [intros H; contradiction|discriminate].
+    + intros H; contradiction.
+  - destruct R as [-> _]. exact K.
+  - subst l'. exact K.
 Qed.
 
-Lemma cstep_lkinv s o : pinned s = false -> LkInv s -> LkInv (fst (cstep s o)).
+Lemma lk_resume_wait s t c e x s1 :
+  LkInv s -> cphase_of s t = PWait c e ->
+  (lk s1 = set_mustc (lk s) t false /\ cphase_of s1 = cphase_of s) ->
+  LkInv (fst (let '(l', r) := Lock.step (lk s1) (AcqBegin t) in finish_wait s1 t c e x l' r)).
 Proof.
-  intros Hpin K. unfold LkInv in K.
-  destruct o as [t|t|t|t n|t|t|t|t|t]; cbn [cstep].
+  intros K Ep (P1 & P3). unfold LkInv in K.
+  pose proof (LK_mustc _ _ t false K) as K0.
+  assert (Hli : phase_of (set_mustc (lk s) t false) t = Idle)
+    by (apply (K_coupling _ _ K0); rewrite Ep; reflexivity).
+  rewrite P1.
+  destruct (Lock.step (set_mustc (lk s) t false) (AcqBegin t)) as [l' r] eqn:E.
+  destruct (lstep_frames _ _ _ _ (K_lock _ _ K0) E) as (I' & Fp & Fh & Fm); cbn [lop_task] in *.
+  pose proof (lstep_acq_res _ t _ _ _ (or_introl eq_refl) Hli E) as R.
+  unfold LkInv. destruct (finish_wait_proj s1 t c e x l' r) as (-> & _ & ->).
+  rewrite P3. apply (LK_finish (set_mustc (lk s) t false)); auto.
+  destruct r; try contradiction; try tauto.
+  - destruct R as (R1 & R2 & _). split; [exact R1|].
+    intros H. apply R1. apply (I_heldidle l' I'), H.
+  - destruct R as [-> _]. exact Hli.
+  - subst l'. exact Hli.
+Qed.
+
+Lemma lk_release s t l' r :
+  LkInv s -> cphase_of s t = PIdle -> Lock.step (lk s) (Release t) = (l', r) -> LkI l' (cphase_of s).
+Proof.
+  intros K Ei E. unfold LkInv in K.
+  assert (Hli : phase_of (lk s) t = Idle) by (apply (K_coupling _ _ K); rewrite Ei; reflexivity).
+  destruct (lstep_frames _ _ _ _ (K_lock _ _ K) E) as (I' & Fp & Fh & Fm). cbn [lop_task] in *.
+  pose proof (lstep_release_res _ t _ _ Hli E) as R.
+  destruct r; try contradiction.
+  - destruct R as [Ro ->]. destruct (do_release_fields (lk s) t) as (F1 & F2 & F3 & F4).
+    eapply (LK_generic _ _ t); [exact K|exact I'|exact Fp|exact Fh|reflexivity| |].
+    + rewrite F1, Ei. cbn. split; intros; [reflexivity|exact Hli].
+    + intros _. exact Ei.
+  - destruct R as [-> _]. exact K.
+Qed.
+
+Lemma lk_cancel s t l' r :
+  LkInv s -> Lock.step (lk s) (Cancel t) = (l', r) -> LkI l' (cphase_of s).
+Proof.
+  intros K E. unfold LkInv in K.
+  destruct (lstep_frames _ _ _ _ (K_lock _ _ K) E) as (I' & Fp & Fh & Fm). cbn [lop_task] in *.
+  destruct (lstep_cancel_res _ _ _ _ E) as (C1 & C2 & _).
+  destruct K as [K1 K2 K3]. constructor; auto; rewrite ?C1, ?C2; auto.
+Qed.
+
+Lemma cstep_lkinv s o : LkInv s -> LkInv (fst (cstep s o)).
+Proof.
+  intros K. pose proof K as K'. unfold LkInv in K.
+  destruct o as [c t|c t|c t|c t n|c t|c t|t|t|t|t|t|t]; cbn [cstep].
   - (* CAcquire *)
     destruct (c_is_idle (cphase_of s t)) eqn:Ei; cbn [negb fst]; [|exact K].
-    apply c_is_idle_true in Ei.
-    assert (Hli : phase_of (lk s) t = Idle) by (apply (K_coupling _ _ _ K); rewrite Ei; reflexivity).
-    destruct (Lock.step (lk s) (AcqBegin t)) as [l' r] eqn:E.
-    destruct (lstep_frames _ _ _ _ (K_lock _ _ _ K) E) as (I' & Fp & Fh & Fm). cbn [lop_task] in *.
-    pose proof (lstep_acq_res _ t _ _ _ (or_introl eq_refl) Hli E) as R.
-    destruct r; try contradiction; cbn [fst]; unfold LkInv; cnorm.
-    + destruct R as [Rh Rp].
-      eapply (LK_generic _ _ _ t); [exact K|exact I'|exact Fp|exact Fh|reflexivity| | |].
-      * rewrite Ei. cbn. split; intros; [reflexivity|exact Rp].
-      * intros _. exact Ei.
-      * apply own_acq; assumption.
-    + destruct R as (Rp & Rh & _).
-      assert (Hn : ~ In t (held l')).
-      { intros H. apply Rp. apply (I_heldidle l' I'), H. }
-      eapply (LK_generic _ _ _ t); [exact K|exact I'|exact Fp|exact Fh|apply upd_other_fun| | |].
-      * rewrite upd_same. cbn. split; [intros H; contradiction|discriminate].
-      * intros H; contradiction.
-      * eapply own_same; [exact K|]. intros x. now rewrite Rh.
-    + destruct R as [-> _]. exact K.
-    + subst l'. exact K.
+    apply c_is_idle_true in Ei. apply lk_acquire_begin; auto.
   - (* CAcqNowait *)
     destruct (c_is_idle (cphase_of s t)) eqn:Ei; cbn [negb fst]; [|exact K].
-    apply c_is_idle_true in Ei.
-    assert (Hli : phase_of (lk s) t = Idle) by (apply (K_coupling _ _ _ K); rewrite Ei; reflexivity).
-    destruct (Lock.step (lk s) (AcqNowait t)) as [l' r] eqn:E.
-    destruct (lstep_frames _ _ _ _ (K_lock _ _ _ K) E) as (I' & Fp & Fh & Fm). cbn [lop_task] in *.
-    pose proof (lstep_acq_res _ t _ _ _ (or_intror eq_refl) Hli E) as R.
-    destruct r; try contradiction; cbn [fst]; unfold LkInv; cnorm.
-    + destruct R as [Rh Rp].
-      eapply (LK_generic _ _ _ t); [exact K|exact I'|exact Fp|exact Fh|reflexivity| | |].
-      * rewrite Ei. cbn. split; intros; [reflexivity|exact Rp].
-      * intros _. exact Ei.
-      * apply own_acq; assumption.
-    + destruct R as (Rp & Rh & _).
-      assert (Hn : ~ In t (held l')).
-      { intros H. apply Rp. apply (I_heldidle l' I'), H. }
-      eapply (LK_generic _ _ _ t); [exact K|exact I'|exact Fp|exact Fh|reflexivity| | |].
-      * rewrite Ei. cbn. split; [intros H; contradiction|].
-        intros _. exfalso.
-        (* acquire_nowait never blocks *)
-        revert E. cbn [Lock.step]. rewrite Hli. cbn [is_idle negb].
-        destruct (owner (lk s)), (waiters (lk s)); try destruct (tid_eqb_opt _ t); intros E; discriminate.
-      * intros H; contradiction.
-      * eapply own_same; [exact K|]. intros x. now rewrite Rh.
-    + destruct R as [-> _]. exact K.
-    + subst l'. exact K.
+    apply c_is_idle_true in Ei. apply lk_acquire_begin; auto.
   - (* CRelease *)
     destruct (c_is_idle (cphase_of s t)) eqn:Ei; cbn [negb fst]; [|exact K].
     apply c_is_idle_true in Ei.
-    assert (Hli : phase_of (lk s) t = Idle) by (apply (K_coupling _ _ _ K); rewrite Ei; reflexivity).
     destruct (Lock.step (lk s) (Release t)) as [l' r] eqn:E.
-    destruct (lstep_frames _ _ _ _ (K_lock _ _ _ K) E) as (I' & Fp & Fh & Fm). cbn [lop_task] in *.
-    pose proof (lstep_release_res _ t _ _ Hli E) as R.
-    destruct r; try contradiction; cbn [fst]; unfold LkInv; cnorm.
-    + destruct R as [Ro ->]. unfold released_owner. rewrite Hpin.
-      destruct (do_release_fields (lk s) t) as (F1 & F2 & F3 & F4).
-      assert (Hn : ~ In t (held (do_release (lk s) t))).
-      { rewrite F3. intros H. apply in_remove_tid in H. tauto. }
-      eapply (LK_generic _ _ _ t); [exact K|exact I'|exact Fp|exact Fh|reflexivity| | |].
-      * rewrite F1, Ei. cbn. split; intros; [reflexivity|exact Hli].
-      * intros _. exact Ei.
-      * destruct (in_dec Nat.eq_dec t (held (lk s))) as [Hin|Hnin].
-        -- eapply own_clear; eauto.
-        -- (* the owner is not yet in `held` only while it is still inside acquire(): then it is not idle *)
-           exfalso. apply (I_owner _ (K_lock _ _ _ K)) in Ro.
-           destruct Ro as [H|[H|(f & H & _)]]; [contradiction|congruence|congruence].
-    + destruct R as [-> _]. exact K.
+    pose proof (lk_release s t l' r K' Ei E) as K2.
+    destruct r; cbn [fst]; unfold LkInv; cnorm; exact K2.
   - (* CNotify *)
     destruct (c_is_idle (cphase_of s t)) eqn:Ei; cbn [negb fst]; [|exact K].
-    destruct (tid_eqb_opt (owner_rec s) t); cbn [fst]; [|exact K].
-    unfold LkInv. destruct (notify_loop_proj n s) as (-> & -> & -> & _). exact K.
+    destruct (holder_check s c t); cbn [fst]; [|exact K].
+    unfold LkInv. destruct (do_notify_proj s c n) as (-> & -> & _). exact K.
   - (* CNotifyAll *)
     destruct (c_is_idle (cphase_of s t)) eqn:Ei; cbn [negb fst]; [|exact K].
-    destruct (tid_eqb_opt (owner_rec s) t); cbn [fst]; [|exact K].
-    unfold LkInv. destruct (notify_loop_proj (length (cwaiters s)) s) as (-> & -> & -> & _). exact K.
+    destruct (holder_check s c t); cbn [fst]; [|exact K].
+    unfold LkInv. destruct (do_notify_proj s c (length (cwaiters s c))) as (-> & -> & _). exact K.
   - (* CWait *)
     destruct (c_is_idle (cphase_of s t)) eqn:Ei; cbn [negb fst]; [|exact K].
     apply c_is_idle_true in Ei.
-    destruct (tid_eqb_opt (owner_rec s) t) eqn:Eo; cbn [fst]; [|exact K].
-    apply tid_eqb_opt_true in Eo.
-    assert (Hin : In t (held (lk s))) by (apply (K_owner _ _ _ K); exact Eo).
-    assert (Hli : phase_of (lk s) t = Idle) by (apply (K_coupling _ _ _ K); rewrite Ei; reflexivity).
+    destruct (holder_check s c t) eqn:Eo; cbn [fst]; [|exact K].
+    assert (Hli : phase_of (lk s) t = Idle) by (apply (K_coupling _ _ K); rewrite Ei; reflexivity).
     destruct (Lock.step (lk s) (Release t)) as [l' r] eqn:E.
-    destruct (lstep_frames _ _ _ _ (K_lock _ _ _ K) E) as (I' & Fp & Fh & Fm). cbn [lop_task] in *.
+    pose proof (lk_release s t l' r K' Ei E) as K2.
+    destruct (lstep_frames _ _ _ _ (K_lock _ _ K) E) as (I' & Fp & Fh & Fm). cbn [lop_task] in *.
     pose proof (lstep_release_res _ t _ _ Hli E) as R.
-    destruct r; try contradiction; cbn [fst]; unfold LkInv; cnorm.
-    + destruct R as [Ro ->]. unfold released_owner. rewrite Hpin.
-      destruct (do_release_fields (lk s) t) as (F1 & F2 & F3 & F4).
-      assert (Hn : ~ In t (held (do_release (lk s) t))).
-      { rewrite F3. intros H. apply in_remove_tid in H. tauto. }
-      eapply (LK_generic _ _ _ t); [exact K|exact I'|exact Fp|exact Fh|apply upd_other_fun| | |].
-      * rewrite F1, upd_same. cbn. split; intros; [reflexivity|exact Hli].
-      * intros H; contradiction.
-      * eapply own_clear; eauto.
-    + destruct R as [-> Hno]. exfalso. apply Hno. apply (I_owner _ (K_lock _ _ _ K)). left. exact Hin.
+    destruct r; try contradiction; cbn [fst]; unfold LkInv; cnorm; [|exact K2].
+    destruct R as [Ro ->]. destruct (do_release_fields (lk s) t) as (F1 & F2 & F3 & F4).
+    assert (Hn : ~ In t (held (do_release (lk s) t))).
+    { rewrite F3. intros H. apply in_remove_tid in H. tauto. }
+    eapply (LK_generic _ _ t); [exact K|exact I'|exact Fp|exact Fh|apply upd_other_fun| |].
+    + rewrite F1, upd_same. cbn. split; intros; [reflexivity|exact Hli].
+    + intros H; contradiction.
+  - (* LAcquire *)
+    destruct (c_is_idle (cphase_of s t)) eqn:Ei; cbn [negb fst]; [|exact K].
+    apply c_is_idle_true in Ei. apply lk_acquire_begin; auto.
+  - (* LAcqNowait *)
+    destruct (c_is_idle (cphase_of s t)) eqn:Ei; cbn [negb fst]; [|exact K].
+    apply c_is_idle_true in Ei. apply lk_acquire_begin; auto.
+  - (* LRelease *)
+    destruct (c_is_idle (cphase_of s t)) eqn:Ei; cbn [negb fst]; [|exact K].
+    apply c_is_idle_true in Ei.
+    destruct (Lock.step (lk s) (Release t)) as [l' r] eqn:E.
+    pose proof (lk_release s t l' r K' Ei E) as K2. cbn [fst]; unfold LkInv; cnorm; exact K2.
   - (* CResume *)
-    destruct (cphase_of s t) as [| |e|e exc] eqn:Ep; [exact K| | |].
+    destruct (cphase_of s t) as [|oc|c e|c e exc] eqn:Ep; [exact K| | |].
     + (* PAcq *)
       assert (Hli : phase_of (lk s) t <> Idle).
-      { intros H. apply (K_coupling _ _ _ K) in H. rewrite Ep in H. discriminate. }
-      assert (Hnh : ~ In t (held (lk s))) by (eapply not_held_if_not_pidle; [exact K|congruence]).
+      { intros H. apply (K_coupling _ _ K) in H. rewrite Ep in H. discriminate. }
       destruct (Lock.step (lk s) (Resume t)) as [l' r] eqn:E.
-      destruct (lstep_frames _ _ _ _ (K_lock _ _ _ K) E) as (I' & Fp & Fh & Fm). cbn [lop_task] in *.
-      pose proof (lstep_resume_res _ t _ _ (K_lock _ _ _ K) Hli E) as R.
+      destruct (lstep_frames _ _ _ _ (K_lock _ _ K) E) as (I' & Fp & Fh & Fm). cbn [lop_task] in *.
+      pose proof (lstep_resume_res _ t _ _ (K_lock _ _ K) Hli E) as R.
       destruct r; try contradiction; cbn [fst]; unfold LkInv; cnorm; [| |exact K].
-      * apply (LK_finish (lk s) (owner_rec s) (cphase_of s) t l' RDone 0 false); auto. tauto.
-      * apply (LK_finish (lk s) (owner_rec s) (cphase_of s) t l' RCancelled 0 false); auto. tauto.
+      * apply (LK_finish (lk s) (cphase_of s) t l' RDone 0 0 false); auto. tauto.
+      * apply (LK_finish (lk s) (cphase_of s) t l' RCancelled 0 0 false); auto. tauto.
     + (* PWait *)
       destruct (efut s e) eqn:Ef; [exact K| |].
-      * apply (lk_resume_wait s t e); auto.
+      * apply (lk_resume_wait s t c e); auto.
         destruct (mustc (lk s) t); [apply wait_interrupted_proj3|cnorm; auto].
-      * apply (lk_resume_wait s t e); auto. apply wait_interrupted_proj3.
+      * apply (lk_resume_wait s t c e); auto. apply wait_interrupted_proj3.
     + (* PReacq *)
       assert (Hli : phase_of (lk s) t <> Idle).
-      { intros H. apply (K_coupling _ _ _ K) in H. rewrite Ep in H. discriminate. }
-      assert (Hnh : ~ In t (held (lk s))) by (eapply not_held_if_not_pidle; [exact K|congruence]).
+      { intros H. apply (K_coupling _ _ K) in H. rewrite Ep in H. discriminate. }
       destruct (Lock.step (lk s) (Resume t)) as [l' r] eqn:E.
-      destruct (lstep_frames _ _ _ _ (K_lock _ _ _ K) E) as (I' & Fp & Fh & Fm). cbn [lop_task] in *.
-      pose proof (lstep_resume_res _ t _ _ (K_lock _ _ _ K) Hli E) as R.
+      destruct (lstep_frames _ _ _ _ (K_lock _ _ K) E) as (I' & Fp & Fh & Fm). cbn [lop_task] in *.
+      pose proof (lstep_resume_res _ t _ _ (K_lock _ _ K) Hli E) as R.
       destruct r; try contradiction; try exact K.
-      * unfold LkInv. destruct (finish_wait_proj s t e exc l' RDone) as (-> & _ & -> & ->).
-        apply (LK_finish (lk s) (owner_rec s) (cphase_of s) t l' RDone e exc); auto; tauto.
-      * unfold LkInv. destruct (finish_wait_proj s t e exc l' RCancelled) as (-> & _ & -> & ->).
-        apply (LK_finish (lk s) (owner_rec s) (cphase_of s) t l' RCancelled e exc); auto; tauto.
+      * unfold LkInv. destruct (finish_wait_proj s t c e exc l' RDone) as (-> & _ & ->).
+        apply (LK_finish (lk s) (cphase_of s) t l' RDone c e exc); auto; tauto.
+      * unfold LkInv. destruct (finish_wait_proj s t c e exc l' RCancelled) as (-> & _ & ->).
+        apply (LK_finish (lk s) (cphase_of s) t l' RCancelled c e exc); auto; tauto.
   - (* CCancel *)
-    destruct (cphase_of s t) as [| |e|e exc] eqn:Ep; [exact K| | |].
+    destruct (cphase_of s t) as [|oc|c e|c e exc] eqn:Ep; [exact K| | |].
     + destruct (Lock.step (lk s) (Cancel t)) as [l' r] eqn:E.
-      destruct (lstep_frames _ _ _ _ (K_lock _ _ _ K) E) as (I' & Fp & Fh & Fm). cbn [lop_task] in *.
-      destruct (lstep_cancel_res _ _ _ _ E) as (C1 & C2 & _).
-      cbn [fst]. unfold LkInv. cnorm.
-      destruct K as [K1 K2 K3 K4]. constructor; auto; rewrite ?C1, ?C2; auto.
+      cbn [fst]. unfold LkInv. cnorm. eapply lk_cancel; eauto.
     + destruct (efut s e); cbn [fst]; unfold LkInv; cnorm; try exact K; apply LK_mustc, K.
     + destruct (Lock.step (lk s) (Cancel t)) as [l' r] eqn:E.
-      destruct (lstep_frames _ _ _ _ (K_lock _ _ _ K) E) as (I' & Fp & Fh & Fm). cbn [lop_task] in *.
-      destruct (lstep_cancel_res _ _ _ _ E) as (C1 & C2 & _).
-      cbn [fst]. unfold LkInv. cnorm.
-      destruct K as [K1 K2 K3 K4]. constructor; auto; rewrite ?C1, ?C2; auto.
+      cbn [fst]. unfold LkInv. cnorm. eapply lk_cancel; eauto.
   - (* CScopeCancel *)
-    destruct (cphase_of s t) as [| |e|e exc] eqn:Ep; [exact K| | |exact K].
+    destruct (cphase_of s t) as [|oc|c e|c e exc] eqn:Ep; [exact K| | |exact K].
     + destruct (phase_of (lk s) t) as [| |f] eqn:Elp; try exact K.
       destruct (futs (lk s) f) eqn:Ef; try exact K.
       destruct (Lock.step (lk s) (Cancel t)) as [l' r] eqn:E.
-      destruct (lstep_frames _ _ _ _ (K_lock _ _ _ K) E) as (I' & Fp & Fh & Fm). cbn [lop_task] in *.
-      destruct (lstep_cancel_res _ _ _ _ E) as (C1 & C2 & _).
-      cbn [fst]. unfold LkInv. cnorm.
-      destruct K as [K1 K2 K3 K4]. constructor; auto; rewrite ?C1, ?C2; auto.
+      cbn [fst]. unfold LkInv. cnorm. eapply lk_cancel; eauto.
     + destruct (efut s e); cbn [fst]; unfold LkInv; cnorm; exact K.
 Qed.
 
 (* ====================================================================================================== *)
-(*  Condition, event side                                                                                 *)
+(*  Conditions, event side                                                                                *)
 (* ====================================================================================================== *)
-(* what the event-side invariant needs to know about a phase: waiting on e (false) / re-acquiring after a
-   normal wake-up from e (true) *)
-Definition pv (p : cphase) : option (eid * bool) :=
-  match p with PWait e => Some (e, false) | PReacq e false => Some (e, true) | _ => None end.
+(* what the event-side invariant needs to know about a phase: waiting on event e of condition c (false) /
+   re-acquiring after a normal wake-up from e (true) *)
+Definition pv (p : cphase) : option (cid * eid * bool) :=
+  match p with PWait c e => Some (c, e, false) | PReacq c e false => Some (c, e, true) | _ => None end.
 
-Lemma pv_wait p e : pv p = Some (e, false) <-> p = PWait e.
-Proof. destruct p as [| |e'|e' [|]]; cbn; split; intros H; try discriminate; congruence. Qed.
+Lemma pv_wait p c e : pv p = Some (c, e, false) <-> p = PWait c e.
+Proof. destruct p as [| |c' e'|c' e' [|]]; cbn; split; intros H; try discriminate; congruence. Qed.
 
-Lemma pv_reacq p e : pv p = Some (e, true) <-> p = PReacq e false.
-Proof. destruct p as [| |e'|e' [|]]; cbn; split; intros H; try discriminate; congruence. Qed.
+Lemma pv_reacq p c e : pv p = Some (c, e, true) <-> p = PReacq c e false.
+Proof. destruct p as [| |c' e'|c' e' [|]]; cbn; split; intros H; try discriminate; congruence. Qed.
 
 Definition setf (ef : eid -> fstate) (e : eid) : eid -> fstate :=
   match ef e with FPending => upd ef e FSet | _ => ef end.
@@ -755,19 +726,20 @@ Proof.
   - refine (conj _ (conj _ (conj _ _))); auto. congruence.
 Qed.
 
-Record EvS (cw : list eid) (es : eid -> bool) (ef : eid -> fstate) (ne : eid) (ph : tid -> cphase)
+Record EvS (cw : cid -> list eid) (es : eid -> bool) (ef : eid -> fstate) (ne : eid) (ph : tid -> cphase)
            (cq sl infl : list eid) : Prop := {
-  V_fresh : forall t e b, pv (ph t) = Some (e, b) -> e < ne;
-  V_einj : forall t1 t2 e b1 b2, pv (ph t1) = Some (e, b1) -> pv (ph t2) = Some (e, b2) -> t1 = t2;
-  V_q : forall e, In e cw -> es e = false /\ exists t, pv (ph t) = Some (e, false);
-  V_qnd : NoDup cw;
-  V_wait0 : forall t e, pv (ph t) = Some (e, false) -> es e = false -> In e cw /\ ef e <> FSet;
-  V_wait1 : forall t e, pv (ph t) = Some (e, false) -> es e = true -> ef e <> FPending /\ In e infl;
-  V_reacq : forall t e, pv (ph t) = Some (e, true) -> es e = true /\ In e infl;
-  V_infl : forall e, In e infl -> es e = true /\ exists t b, pv (ph t) = Some (e, b);
+  V_fresh : forall t c e b, pv (ph t) = Some (c, e, b) -> e < ne;
+  V_einj : forall t1 t2 c1 c2 e b1 b2,
+             pv (ph t1) = Some (c1, e, b1) -> pv (ph t2) = Some (c2, e, b2) -> t1 = t2;
+  V_q : forall c e, In e (cw c) -> es e = false /\ exists t, pv (ph t) = Some (c, e, false);
+  V_qnd : forall c, NoDup (cw c);
+  V_wait0 : forall t c e, pv (ph t) = Some (c, e, false) -> es e = false -> In e (cw c) /\ ef e <> FSet;
+  V_wait1 : forall t c e, pv (ph t) = Some (c, e, false) -> es e = true -> ef e <> FPending /\ In e infl;
+  V_reacq : forall t c e, pv (ph t) = Some (c, e, true) -> es e = true /\ In e infl;
+  V_infl : forall e, In e infl -> es e = true /\ exists t c b, pv (ph t) = Some (c, e, b);
   V_inflnd : NoDup infl;
   V_setlog : forall e, es e = true -> In e sl;
-  V_fifo : subseq cw cq
+  V_fifo : forall c, subseq (cw c) cq
 }.
 
 Definition EvInv (s : cst) : Prop :=
@@ -779,13 +751,14 @@ Lemma S_phase_ext cw es ef ne ph ph' cq sl infl :
   EvS cw es ef ne ph cq sl infl -> EvS cw es ef ne ph' cq sl infl.
 Proof.
   intros X V. destruct V. constructor; auto.
-  - intros t e b. rewrite X. eauto.
-  - intros t1 t2 e b1 b2. rewrite !X. eauto.
-  - intros e He. destruct (V_q0 e He) as (H1 & t & H2). split; [exact H1|]. exists t. now rewrite X.
-  - intros t e. rewrite X. eauto.
-  - intros t e. rewrite X. eauto.
-  - intros t e. rewrite X. eauto.
-  - intros e He. destruct (V_infl0 e He) as (H1 & t & b & H2). split; [exact H1|]. exists t, b. now rewrite X.
+  - intros t c e b. rewrite X. eauto.
+  - intros t1 t2 c1 c2 e b1 b2. rewrite !X. eauto.
+  - intros c e He. destruct (V_q0 c e He) as (H1 & t & H2). split; [exact H1|]. exists t. now rewrite X.
+  - intros t c e. rewrite X. eauto.
+  - intros t c e. rewrite X. eauto.
+  - intros t c e. rewrite X. eauto.
+  - intros e He. destruct (V_infl0 e He) as (H1 & t & c & b & H2). split; [exact H1|].
+    exists t, c, b. now rewrite X.
 Qed.
 
 Lemma pv_upd_none ph t p' : pv (ph t) = None -> pv p' = None -> forall x, pv (upd ph t p' x) = pv (ph x).
@@ -794,36 +767,65 @@ Proof.
   now rewrite upd_other.
 Qed.
 
-Lemma S_init : EvS [] (fun _ => false) (fun _ => FPending) 0 (fun _ => PIdle) [] [] [].
+Lemma S_init : EvS (fun _ => []) (fun _ => false) (fun _ => FPending) 0 (fun _ => PIdle) [] [] [].
 Proof.
-  constructor; cbn; try discriminate; try (intros ? []); try constructor.
+  constructor; cbn.
+  - discriminate.
+  - discriminate.
+  - intros c e [].
+  - intros c. constructor.
+  - discriminate.
+  - discriminate.
+  - discriminate.
+  - intros e [].
+  - constructor.
+  - discriminate.
+  - intros c. apply ss_nil.
 Qed.
 
-(* notify pops the head e of the queue and sets it *)
-Lemma S_set_head e r es ef ne ph cq sl infl :
-  EvS (e :: r) es ef ne ph cq sl infl ->
-  EvS r (upd es e true) (setf ef e) ne ph cq (sl ++ [e]) (infl ++ [e]).
+(* an event sits in the queue of at most one condition *)
+Lemma q_cond_unique cw es ef ne ph cq sl infl e c1 c2 :
+  EvS cw es ef ne ph cq sl infl -> In e (cw c1) -> In e (cw c2) -> c1 = c2.
 Proof.
-  intros V. destruct (V_q _ _ _ _ _ _ _ _ V e (or_introl eq_refl)) as (Hes & te & Hte).
-  pose proof (V_qnd _ _ _ _ _ _ _ _ V) as Hnd. inversion Hnd as [|a b Her Hr]; subst.
+  intros V H1 H2. destruct (V_q _ _ _ _ _ _ _ _ V c1 e H1) as (_ & t1 & Ht1).
+  destruct (V_q _ _ _ _ _ _ _ _ V c2 e H2) as (_ & t2 & Ht2).
+  assert (t1 = t2) by (eapply (V_einj _ _ _ _ _ _ _ _ V); eauto). subst. congruence.
+Qed.
+
+(* notify pops the head e of condition c's queue and sets it *)
+Lemma S_set_head c e r cw es ef ne ph cq sl infl :
+  EvS cw es ef ne ph cq sl infl -> cw c = e :: r ->
+  EvS (upd cw c r) (upd es e true) (setf ef e) ne ph cq (sl ++ [e]) (infl ++ [e]).
+Proof.
+  intros V Ecw.
+  assert (Hin : In e (cw c)) by (rewrite Ecw; now left).
+  destruct (V_q _ _ _ _ _ _ _ _ V c e Hin) as (Hes & te & Hte).
+  pose proof (V_qnd _ _ _ _ _ _ _ _ V c) as Hnd. rewrite Ecw in Hnd. inversion Hnd as [|a b Her Hr]; subst.
   destruct (setf_spec ef e) as (F1 & F2 & F3 & F4).
   assert (Hninfl : ~ In e infl).
   { intros H. destruct (V_infl _ _ _ _ _ _ _ _ V e H). congruence. }
+  assert (Hsub : forall c' x, In x (upd cw c r c') -> In x (cw c') /\ x <> e).
+  { intros c' x Hx. destruct (Nat.eq_dec c' c) as [->|Hc].
+    - rewrite upd_same in Hx. split; [rewrite Ecw; now right|]. intros ->. contradiction.
+    - rewrite upd_other in Hx by assumption. split; [exact Hx|]. intros ->.
+      apply Hc. eapply q_cond_unique; eauto. }
   constructor.
   - apply (V_fresh _ _ _ _ _ _ _ _ V).
   - apply (V_einj _ _ _ _ _ _ _ _ V).
-  - intros x Hx. assert (x <> e) by (intros ->; contradiction).
-    rewrite upd_other by assumption. apply (V_q _ _ _ _ _ _ _ _ V). now right.
-  - exact Hr.
-  - intros t x Ht Hx. destruct (Nat.eq_dec x e) as [->|Hne]; [rewrite upd_same in Hx; discriminate|].
-    rewrite upd_other in Hx by assumption. destruct (V_wait0 _ _ _ _ _ _ _ _ V t x Ht Hx) as [[H|H] H'].
-    + congruence.
-    + split; [exact H|]. now rewrite F2.
-  - intros t x Ht Hx. destruct (Nat.eq_dec x e) as [->|Hne].
+  - intros c' x Hx. destruct (Hsub c' x Hx) as [Hx' Hne].
+    rewrite upd_other by assumption. apply (V_q _ _ _ _ _ _ _ _ V c' x Hx').
+  - intros c'. destruct (Nat.eq_dec c' c) as [->|Hc]; [rewrite upd_same; exact Hr|].
+    rewrite upd_other by assumption. apply (V_qnd _ _ _ _ _ _ _ _ V).
+  - intros t c' x Ht Hx. destruct (Nat.eq_dec x e) as [->|Hne]; [rewrite upd_same in Hx; discriminate|].
+    rewrite upd_other in Hx by assumption. destruct (V_wait0 _ _ _ _ _ _ _ _ V t c' x Ht Hx) as [H H'].
+    split; [|now rewrite F2]. destruct (Nat.eq_dec c' c) as [->|Hc].
+    + rewrite upd_same. rewrite Ecw in H. destruct H as [H|H]; [congruence|exact H].
+    + now rewrite upd_other.
+  - intros t c' x Ht Hx. destruct (Nat.eq_dec x e) as [->|Hne].
     + split; [exact F1|]. apply in_or_app. right. now left.
-    + rewrite upd_other in Hx by assumption. destruct (V_wait1 _ _ _ _ _ _ _ _ V t x Ht Hx) as [H H'].
+    + rewrite upd_other in Hx by assumption. destruct (V_wait1 _ _ _ _ _ _ _ _ V t c' x Ht Hx) as [H H'].
       split; [now rewrite F2|]. apply in_or_app. now left.
-  - intros t x Ht. destruct (V_reacq _ _ _ _ _ _ _ _ V t x Ht) as [H H'].
+  - intros t c' x Ht. destruct (V_reacq _ _ _ _ _ _ _ _ V t c' x Ht) as [H H'].
     assert (x <> e) by congruence. rewrite upd_other by assumption. split; [exact H|].
     apply in_or_app. now left.
   - intros x Hx. apply in_app_or in Hx. destruct Hx as [Hx|[<-|[]]].
@@ -833,191 +835,220 @@ Proof.
   - apply NoDup_app_tail1; [apply (V_inflnd _ _ _ _ _ _ _ _ V)|exact Hninfl].
   - intros x Hx. apply in_or_app. destruct (Nat.eq_dec x e) as [->|Hne]; [right; now left|].
     rewrite upd_other in Hx by assumption. left. apply (V_setlog _ _ _ _ _ _ _ _ V), Hx.
-  - eapply subseq_trans; [|apply (V_fifo _ _ _ _ _ _ _ _ V)]. apply ss_skip, subseq_refl.
+  - intros c'. destruct (Nat.eq_dec c' c) as [->|Hc].
+    + rewrite upd_same. eapply subseq_trans; [|apply (V_fifo _ _ _ _ _ _ _ _ V c)].
+      rewrite Ecw. apply ss_skip, subseq_refl.
+    + rewrite upd_other by assumption. apply (V_fifo _ _ _ _ _ _ _ _ V).
 Qed.
 
-(* wait() enqueues a fresh event *)
-Lemma S_enqueue cw es ef ne ph cq sl infl t :
+(* c.wait() enqueues a fresh event *)
+Lemma S_enqueue c cw es ef ne ph cq sl infl t :
   EvS cw es ef ne ph cq sl infl -> pv (ph t) = None ->
-  EvS (cw ++ [ne]) (upd es ne false) (upd ef ne FPending) (S ne) (upd ph t (PWait ne)) (cq ++ [ne]) sl infl.
+  EvS (upd cw c (cw c ++ [ne])) (upd es ne false) (upd ef ne FPending) (S ne) (upd ph t (PWait c ne))
+      (cq ++ [ne]) sl infl.
 Proof.
   intros V Hpt.
-  assert (Hold : forall x, x <> t -> pv (upd ph t (PWait ne) x) = pv (ph x))
+  assert (Hold : forall x, x <> t -> pv (upd ph t (PWait c ne) x) = pv (ph x))
     by (intros; now rewrite upd_other).
-  assert (Hcwlt : forall x, In x cw -> x < ne).
-  { intros x Hx. destruct (V_q _ _ _ _ _ _ _ _ V x Hx) as (_ & tx & Htx).
+  assert (Hcwlt : forall c' x, In x (cw c') -> x < ne).
+  { intros c' x Hx. destruct (V_q _ _ _ _ _ _ _ _ V c' x Hx) as (_ & tx & Htx).
     eapply (V_fresh _ _ _ _ _ _ _ _ V); eauto. }
   assert (Hinflt : forall x, In x infl -> x < ne).
-  { intros x Hx. destruct (V_infl _ _ _ _ _ _ _ _ V x Hx) as (_ & tx & b & Htx).
+  { intros x Hx. destruct (V_infl _ _ _ _ _ _ _ _ V x Hx) as (_ & tx & cx & b & Htx).
     eapply (V_fresh _ _ _ _ _ _ _ _ V); eauto. }
-  assert (Hphlt : forall x e b, pv (ph x) = Some (e, b) -> e <> ne).
-  { intros x e b H. pose proof (V_fresh _ _ _ _ _ _ _ _ V x e b H). lia. }
+  assert (Hphlt : forall x c' e b, pv (ph x) = Some (c', e, b) -> e <> ne).
+  { intros x c' e b H. pose proof (V_fresh _ _ _ _ _ _ _ _ V x c' e b H). lia. }
+  assert (Hcases : forall c' x, In x (upd cw c (cw c ++ [ne]) c') ->
+            (In x (cw c') /\ x <> ne) \/ (c' = c /\ x = ne)).
+  { intros c' x Hx. destruct (Nat.eq_dec c' c) as [->|Hc].
+    - rewrite upd_same in Hx. apply in_app_or in Hx. destruct Hx as [Hx|[<-|[]]]; [left|right; auto].
+      split; [exact Hx|]. pose proof (Hcwlt c x Hx). lia.
+    - rewrite upd_other in Hx by assumption. left. split; [exact Hx|]. pose proof (Hcwlt c' x Hx). lia. }
   constructor.
-  - intros x e b H. destruct (Nat.eq_dec x t) as [->|Hx].
-    + rewrite upd_same in H. cbn in H. injection H as <- <-. lia.
-    + rewrite Hold in H by assumption. pose proof (V_fresh _ _ _ _ _ _ _ _ V x e b H). lia.
-  - intros x1 x2 e b1 b2 H1 H2.
+  - intros x c' e b H. destruct (Nat.eq_dec x t) as [->|Hx].
+    + rewrite upd_same in H. cbn in H. injection H as <- <- <-. lia.
+    + rewrite Hold in H by assumption. pose proof (V_fresh _ _ _ _ _ _ _ _ V x c' e b H). lia.
+  - intros x1 x2 c1 c2 e b1 b2 H1 H2.
     destruct (Nat.eq_dec x1 t) as [->|Hx1]; destruct (Nat.eq_dec x2 t) as [->|Hx2]; auto.
-    + rewrite upd_same in H1. cbn in H1. injection H1 as <- <-. rewrite Hold in H2 by assumption.
+    + rewrite upd_same in H1. cbn in H1. injection H1 as <- <- <-. rewrite Hold in H2 by assumption.
       exfalso. eapply Hphlt; eauto.
-    + rewrite upd_same in H2. cbn in H2. injection H2 as <- <-. rewrite Hold in H1 by assumption.
+    + rewrite upd_same in H2. cbn in H2. injection H2 as <- <- <-. rewrite Hold in H1 by assumption.
       exfalso. eapply Hphlt; eauto.
     + rewrite Hold in H1, H2 by assumption. eapply (V_einj _ _ _ _ _ _ _ _ V); eauto.
-  - intros x Hx. apply in_app_or in Hx. destruct Hx as [Hx|[<-|[]]].
-    + assert (x <> ne) by (pose proof (Hcwlt x Hx); lia). rewrite upd_other by assumption.
-      destruct (V_q _ _ _ _ _ _ _ _ V x Hx) as (H1 & tx & Htx). split; [exact H1|]. exists tx.
+  - intros c' x Hx. destruct (Hcases c' x Hx) as [[Hx' Hne]|[-> ->]].
+    + rewrite upd_other by assumption.
+      destruct (V_q _ _ _ _ _ _ _ _ V c' x Hx') as (H1 & tx & Htx). split; [exact H1|]. exists tx.
       assert (tx <> t) by congruence. now rewrite Hold.
     + rewrite upd_same. split; [reflexivity|]. exists t. now rewrite upd_same.
-  - apply NoDup_app_tail1; [apply (V_qnd _ _ _ _ _ _ _ _ V)|]. intros H. apply Hcwlt in H. lia.
-  - intros x e H He. destruct (Nat.eq_dec x t) as [->|Hx].
-    + rewrite upd_same in H. cbn in H. injection H as <-. rewrite upd_same. split; [|discriminate].
+  - intros c'. destruct (Nat.eq_dec c' c) as [->|Hc].
+    + rewrite upd_same. apply NoDup_app_tail1; [apply (V_qnd _ _ _ _ _ _ _ _ V)|].
+      intros H. apply Hcwlt in H. lia.
+    + rewrite upd_other by assumption. apply (V_qnd _ _ _ _ _ _ _ _ V).
+  - intros x c' e H He. destruct (Nat.eq_dec x t) as [->|Hx].
+    + rewrite upd_same in H. cbn in H. injection H as <- <-. rewrite !upd_same. split; [|discriminate].
       apply in_or_app. right. now left.
     + rewrite Hold in H by assumption. assert (e <> ne) by (eapply Hphlt; eauto).
-      rewrite upd_other in He by assumption. rewrite upd_other by assumption.
-      destruct (V_wait0 _ _ _ _ _ _ _ _ V x e H He). split; [apply in_or_app; now left|assumption].
-  - intros x e H He. destruct (Nat.eq_dec x t) as [->|Hx].
-    + rewrite upd_same in H. cbn in H. injection H as <-. rewrite upd_same in He. discriminate.
+      rewrite upd_other in He by assumption. rewrite (upd_other ef) by assumption.
+      destruct (V_wait0 _ _ _ _ _ _ _ _ V x c' e H He). split; [|assumption].
+      destruct (Nat.eq_dec c' c) as [->|Hc]; [rewrite upd_same; apply in_or_app; now left|].
+      now rewrite upd_other.
+  - intros x c' e H He. destruct (Nat.eq_dec x t) as [->|Hx].
+    + rewrite upd_same in H. cbn in H. injection H as <- <-. rewrite upd_same in He. discriminate.
     + rewrite Hold in H by assumption. assert (e <> ne) by (eapply Hphlt; eauto).
       rewrite upd_other in He by assumption. rewrite upd_other by assumption.
-      apply (V_wait1 _ _ _ _ _ _ _ _ V x e H He).
-  - intros x e H. destruct (Nat.eq_dec x t) as [->|Hx].
+      apply (V_wait1 _ _ _ _ _ _ _ _ V x c' e H He).
+  - intros x c' e H. destruct (Nat.eq_dec x t) as [->|Hx].
     + rewrite upd_same in H. cbn in H. discriminate.
     + rewrite Hold in H by assumption. assert (e <> ne) by (eapply Hphlt; eauto).
-      rewrite upd_other by assumption. apply (V_reacq _ _ _ _ _ _ _ _ V x e H).
+      rewrite upd_other by assumption. apply (V_reacq _ _ _ _ _ _ _ _ V x c' e H).
   - intros e He. assert (e <> ne) by (pose proof (Hinflt e He); lia). rewrite upd_other by assumption.
-    destruct (V_infl _ _ _ _ _ _ _ _ V e He) as (H1 & tx & b & Htx). split; [exact H1|]. exists tx, b.
+    destruct (V_infl _ _ _ _ _ _ _ _ V e He) as (H1 & tx & cx & b & Htx). split; [exact H1|]. exists tx, cx, b.
     assert (tx <> t) by congruence. now rewrite Hold.
   - apply (V_inflnd _ _ _ _ _ _ _ _ V).
   - intros e He. destruct (Nat.eq_dec e ne) as [->|Hne]; [rewrite upd_same in He; discriminate|].
     rewrite upd_other in He by assumption. apply (V_setlog _ _ _ _ _ _ _ _ V), He.
-  - apply subseq_app_tail, (V_fifo _ _ _ _ _ _ _ _ V).
+  - intros c'. destruct (Nat.eq_dec c' c) as [->|Hc].
+    + rewrite upd_same. apply subseq_app_tail, (V_fifo _ _ _ _ _ _ _ _ V).
+    + rewrite upd_other by assumption. eapply subseq_trans; [apply (V_fifo _ _ _ _ _ _ _ _ V)|].
+      clear. induction cq; cbn; [apply ss_skip, ss_nil|apply ss_take; assumption].
 Qed.
 
 (* a notified waiter woke up normally and now blocks in the re-acquire *)
-Lemma S_block cw es ef ne ph cq sl infl t e :
-  EvS cw es ef ne ph cq sl infl -> ph t = PWait e -> es e = true ->
-  EvS cw es ef ne (upd ph t (PReacq e false)) cq sl infl.
+Lemma S_block cw es ef ne ph cq sl infl t c e :
+  EvS cw es ef ne ph cq sl infl -> ph t = PWait c e -> es e = true ->
+  EvS cw es ef ne (upd ph t (PReacq c e false)) cq sl infl.
 Proof.
-  intros V Hpt Hes. assert (Hpv : pv (ph t) = Some (e, false)) by (now apply pv_wait).
-  assert (Hold : forall x, x <> t -> pv (upd ph t (PReacq e false) x) = pv (ph x))
+  intros V Hpt Hes. assert (Hpv : pv (ph t) = Some (c, e, false)) by (now apply pv_wait).
+  assert (Hold : forall x, x <> t -> pv (upd ph t (PReacq c e false) x) = pv (ph x))
     by (intros; now rewrite upd_other).
-  assert (Hnew : pv (upd ph t (PReacq e false) t) = Some (e, true)) by (now rewrite upd_same).
-  destruct (V_wait1 _ _ _ _ _ _ _ _ V t e Hpv Hes) as [Hef Hin].
+  assert (Hnew : pv (upd ph t (PReacq c e false) t) = Some (c, e, true)) by (now rewrite upd_same).
+  destruct (V_wait1 _ _ _ _ _ _ _ _ V t c e Hpv Hes) as [Hef Hin].
   constructor.
-  - intros x e' b H. destruct (Nat.eq_dec x t) as [->|Hx].
-    + rewrite Hnew in H. injection H as <- <-. eapply (V_fresh _ _ _ _ _ _ _ _ V); eauto.
+  - intros x c' e' b H. destruct (Nat.eq_dec x t) as [->|Hx].
+    + rewrite Hnew in H. injection H as <- <- <-. eapply (V_fresh _ _ _ _ _ _ _ _ V); eauto.
     + rewrite Hold in H by assumption. eapply (V_fresh _ _ _ _ _ _ _ _ V); eauto.
-  - intros x1 x2 e' b1 b2 H1 H2.
+  - intros x1 x2 c1 c2 e' b1 b2 H1 H2.
     destruct (Nat.eq_dec x1 t) as [->|Hx1]; destruct (Nat.eq_dec x2 t) as [->|Hx2]; auto.
-    + rewrite Hnew in H1. injection H1 as <- <-. rewrite Hold in H2 by assumption.
+    + rewrite Hnew in H1. injection H1 as <- <- <-. rewrite Hold in H2 by assumption.
       eapply (V_einj _ _ _ _ _ _ _ _ V); eauto.
-    + rewrite Hnew in H2. injection H2 as <- <-. rewrite Hold in H1 by assumption.
+    + rewrite Hnew in H2. injection H2 as <- <- <-. rewrite Hold in H1 by assumption.
       eapply (V_einj _ _ _ _ _ _ _ _ V); eauto.
     + rewrite Hold in H1, H2 by assumption. eapply (V_einj _ _ _ _ _ _ _ _ V); eauto.
-  - intros x Hx. destruct (V_q _ _ _ _ _ _ _ _ V x Hx) as (H1 & tx & Htx). split; [exact H1|].
+  - intros c' x Hx. destruct (V_q _ _ _ _ _ _ _ _ V c' x Hx) as (H1 & tx & Htx). split; [exact H1|].
     exists tx. assert (tx <> t).
-    { intros ->. rewrite Hpv in Htx. injection Htx as ->. congruence. }
+    { intros ->. rewrite Hpv in Htx. injection Htx as -> ->. congruence. }
     now rewrite Hold.
   - apply (V_qnd _ _ _ _ _ _ _ _ V).
-  - intros x e' H He. destruct (Nat.eq_dec x t) as [->|Hx]; [rewrite Hnew in H; discriminate|].
+  - intros x c' e' H He. destruct (Nat.eq_dec x t) as [->|Hx]; [rewrite Hnew in H; discriminate|].
     rewrite Hold in H by assumption. eapply (V_wait0 _ _ _ _ _ _ _ _ V); eauto.
-  - intros x e' H He. destruct (Nat.eq_dec x t) as [->|Hx]; [rewrite Hnew in H; discriminate|].
+  - intros x c' e' H He. destruct (Nat.eq_dec x t) as [->|Hx]; [rewrite Hnew in H; discriminate|].
     rewrite Hold in H by assumption. eapply (V_wait1 _ _ _ _ _ _ _ _ V); eauto.
-  - intros x e' H. destruct (Nat.eq_dec x t) as [->|Hx].
-    + rewrite Hnew in H. injection H as <-. auto.
+  - intros x c' e' H. destruct (Nat.eq_dec x t) as [->|Hx].
+    + rewrite Hnew in H. injection H as <- <-. auto.
     + rewrite Hold in H by assumption. eapply (V_reacq _ _ _ _ _ _ _ _ V); eauto.
-  - intros e' He. destruct (V_infl _ _ _ _ _ _ _ _ V e' He) as (H1 & tx & b & Htx). split; [exact H1|].
+  - intros e' He. destruct (V_infl _ _ _ _ _ _ _ _ V e' He) as (H1 & tx & cx & b & Htx). split; [exact H1|].
     destruct (Nat.eq_dec tx t) as [->|Hx].
-    + rewrite Hpv in Htx. injection Htx as <- <-. exists t, true. exact Hnew.
-    + exists tx, b. now rewrite Hold.
+    + rewrite Hpv in Htx. injection Htx as <- <- <-. exists t, c, true. exact Hnew.
+    + exists tx, cx, b. now rewrite Hold.
   - apply (V_inflnd _ _ _ _ _ _ _ _ V).
   - apply (V_setlog _ _ _ _ _ _ _ _ V).
   - apply (V_fifo _ _ _ _ _ _ _ _ V).
 Qed.
 
 (* a task whose event is set leaves its wait (returns, fails over, or hands the notification on) *)
-Lemma S_leave_notified cw es ef ne ph cq sl infl t e b p' :
-  EvS cw es ef ne ph cq sl infl -> pv (ph t) = Some (e, b) -> es e = true -> pv p' = None ->
+Lemma S_leave_notified cw es ef ne ph cq sl infl t c e b p' :
+  EvS cw es ef ne ph cq sl infl -> pv (ph t) = Some (c, e, b) -> es e = true -> pv p' = None ->
   EvS cw es ef ne (upd ph t p') cq sl (remove_first e infl) /\ In e infl.
 Proof.
   intros V Hpv Hes Hp'.
   assert (Hold : forall x, x <> t -> pv (upd ph t p' x) = pv (ph x)) by (intros; now rewrite upd_other).
   assert (Hnew : pv (upd ph t p' t) = None) by (now rewrite upd_same).
   assert (Hin : In e infl).
-  { destruct b; [apply (V_reacq _ _ _ _ _ _ _ _ V t e Hpv)|apply (V_wait1 _ _ _ _ _ _ _ _ V t e Hpv Hes)]. }
-  assert (Hother : forall x e' b', pv (ph x) = Some (e', b') -> x <> t -> e' <> e).
-  { intros x e' b' H Hx ->. apply Hx. eapply (V_einj _ _ _ _ _ _ _ _ V); eauto. }
+  { destruct b; [apply (V_reacq _ _ _ _ _ _ _ _ V t c e Hpv)|apply (V_wait1 _ _ _ _ _ _ _ _ V t c e Hpv Hes)]. }
+  assert (Hother : forall x c' e' b', pv (ph x) = Some (c', e', b') -> x <> t -> e' <> e).
+  { intros x c' e' b' H Hx ->. apply Hx. eapply (V_einj _ _ _ _ _ _ _ _ V); eauto. }
   split; [|exact Hin]. constructor.
-  - intros x e' b' H. destruct (Nat.eq_dec x t) as [->|Hx]; [rewrite Hnew in H; discriminate|].
+  - intros x c' e' b' H. destruct (Nat.eq_dec x t) as [->|Hx]; [rewrite Hnew in H; discriminate|].
     rewrite Hold in H by assumption. eapply (V_fresh _ _ _ _ _ _ _ _ V); eauto.
-  - intros x1 x2 e' b1 b2 H1 H2.
+  - intros x1 x2 c1 c2 e' b1 b2 H1 H2.
     destruct (Nat.eq_dec x1 t) as [->|Hx1]; [rewrite Hnew in H1; discriminate|].
     destruct (Nat.eq_dec x2 t) as [->|Hx2]; [rewrite Hnew in H2; discriminate|].
     rewrite Hold in H1, H2 by assumption. eapply (V_einj _ _ _ _ _ _ _ _ V); eauto.
-  - intros x Hx. destruct (V_q _ _ _ _ _ _ _ _ V x Hx) as (H1 & tx & Htx). split; [exact H1|].
+  - intros c' x Hx. destruct (V_q _ _ _ _ _ _ _ _ V c' x Hx) as (H1 & tx & Htx). split; [exact H1|].
     exists tx. assert (tx <> t).
-    { intros ->. rewrite Hpv in Htx. injection Htx as -> _. congruence. }
+    { intros ->. rewrite Hpv in Htx. injection Htx as -> -> _. congruence. }
     now rewrite Hold.
   - apply (V_qnd _ _ _ _ _ _ _ _ V).
-  - intros x e' H He. destruct (Nat.eq_dec x t) as [->|Hx]; [rewrite Hnew in H; discriminate|].
+  - intros x c' e' H He. destruct (Nat.eq_dec x t) as [->|Hx]; [rewrite Hnew in H; discriminate|].
     rewrite Hold in H by assumption. eapply (V_wait0 _ _ _ _ _ _ _ _ V); eauto.
-  - intros x e' H He. destruct (Nat.eq_dec x t) as [->|Hx]; [rewrite Hnew in H; discriminate|].
-    rewrite Hold in H by assumption. destruct (V_wait1 _ _ _ _ _ _ _ _ V x e' H He) as [H1 H2].
+  - intros x c' e' H He. destruct (Nat.eq_dec x t) as [->|Hx]; [rewrite Hnew in H; discriminate|].
+    rewrite Hold in H by assumption. destruct (V_wait1 _ _ _ _ _ _ _ _ V x c' e' H He) as [H1 H2].
     split; [exact H1|]. apply remove_first_in_other; [exact H2|]. eapply Hother; eauto.
-  - intros x e' H. destruct (Nat.eq_dec x t) as [->|Hx]; [rewrite Hnew in H; discriminate|].
-    rewrite Hold in H by assumption. destruct (V_reacq _ _ _ _ _ _ _ _ V x e' H) as [H1 H2].
+  - intros x c' e' H. destruct (Nat.eq_dec x t) as [->|Hx]; [rewrite Hnew in H; discriminate|].
+    rewrite Hold in H by assumption. destruct (V_reacq _ _ _ _ _ _ _ _ V x c' e' H) as [H1 H2].
     split; [exact H1|]. apply remove_first_in_other; [exact H2|]. eapply Hother; eauto.
   - intros e' He. assert (He' : In e' infl) by (eapply remove_first_in; eauto).
     assert (e' <> e).
     { intros ->. revert He. apply remove_first_gone, (V_inflnd _ _ _ _ _ _ _ _ V). }
-    destruct (V_infl _ _ _ _ _ _ _ _ V e' He') as (H1 & tx & b' & Htx). split; [exact H1|].
-    exists tx, b'. assert (tx <> t).
-    { intros ->. rewrite Hpv in Htx. injection Htx as -> _. congruence. }
+    destruct (V_infl _ _ _ _ _ _ _ _ V e' He') as (H1 & tx & cx & b' & Htx). split; [exact H1|].
+    exists tx, cx, b'. assert (tx <> t).
+    { intros ->. rewrite Hpv in Htx. injection Htx as -> -> _. congruence. }
     now rewrite Hold.
   - apply remove_first_nodup, (V_inflnd _ _ _ _ _ _ _ _ V).
   - apply (V_setlog _ _ _ _ _ _ _ _ V).
   - apply (V_fifo _ _ _ _ _ _ _ _ V).
 Qed.
 
-(* a cancelled waiter whose event was not set removes its event from the queue *)
-Lemma S_leave_unset cw es ef ne ph cq sl infl t e p' :
-  EvS cw es ef ne ph cq sl infl -> ph t = PWait e -> es e = false -> pv p' = None ->
-  EvS (remove_first e cw) es ef ne (upd ph t p') cq sl infl.
+(* a cancelled waiter whose event was not set removes its event from its condition's queue *)
+Lemma S_leave_unset cw es ef ne ph cq sl infl t c e p' :
+  EvS cw es ef ne ph cq sl infl -> ph t = PWait c e -> es e = false -> pv p' = None ->
+  EvS (upd cw c (remove_first e (cw c))) es ef ne (upd ph t p') cq sl infl.
 Proof.
-  intros V Hpt Hes Hp'. assert (Hpv : pv (ph t) = Some (e, false)) by (now apply pv_wait).
+  intros V Hpt Hes Hp'. assert (Hpv : pv (ph t) = Some (c, e, false)) by (now apply pv_wait).
   assert (Hold : forall x, x <> t -> pv (upd ph t p' x) = pv (ph x)) by (intros; now rewrite upd_other).
   assert (Hnew : pv (upd ph t p' t) = None) by (now rewrite upd_same).
-  assert (Hother : forall x e' b', pv (ph x) = Some (e', b') -> x <> t -> e' <> e).
-  { intros x e' b' H Hx ->. apply Hx. eapply (V_einj _ _ _ _ _ _ _ _ V); eauto. }
+  assert (Hother : forall x c' e' b', pv (ph x) = Some (c', e', b') -> x <> t -> e' <> e).
+  { intros x c' e' b' H Hx ->. apply Hx. eapply (V_einj _ _ _ _ _ _ _ _ V); eauto. }
+  assert (Hsub : forall c' x, In x (upd cw c (remove_first e (cw c)) c') -> In x (cw c') /\ x <> e).
+  { intros c' x Hx. destruct (Nat.eq_dec c' c) as [->|Hc].
+    - rewrite upd_same in Hx. split; [eapply remove_first_in; eauto|].
+      intros ->. revert Hx. apply remove_first_gone, (V_qnd _ _ _ _ _ _ _ _ V).
+    - rewrite upd_other in Hx by assumption. split; [exact Hx|]. intros ->.
+      destruct (V_q _ _ _ _ _ _ _ _ V c' e Hx) as (_ & tx & Htx).
+      assert (tx = t) by (eapply (V_einj _ _ _ _ _ _ _ _ V); eauto). subst. congruence. }
   constructor.
-  - intros x e' b' H. destruct (Nat.eq_dec x t) as [->|Hx]; [rewrite Hnew in H; discriminate|].
+  - intros x c' e' b' H. destruct (Nat.eq_dec x t) as [->|Hx]; [rewrite Hnew in H; discriminate|].
     rewrite Hold in H by assumption. eapply (V_fresh _ _ _ _ _ _ _ _ V); eauto.
-  - intros x1 x2 e' b1 b2 H1 H2.
+  - intros x1 x2 c1 c2 e' b1 b2 H1 H2.
     destruct (Nat.eq_dec x1 t) as [->|Hx1]; [rewrite Hnew in H1; discriminate|].
     destruct (Nat.eq_dec x2 t) as [->|Hx2]; [rewrite Hnew in H2; discriminate|].
     rewrite Hold in H1, H2 by assumption. eapply (V_einj _ _ _ _ _ _ _ _ V); eauto.
-  - intros x Hx. assert (Hx' : In x cw) by (eapply remove_first_in; eauto).
-    assert (x <> e).
-    { intros ->. revert Hx. apply remove_first_gone, (V_qnd _ _ _ _ _ _ _ _ V). }
-    destruct (V_q _ _ _ _ _ _ _ _ V x Hx') as (H1 & tx & Htx). split; [exact H1|].
+  - intros c' x Hx. destruct (Hsub c' x Hx) as [Hx' Hne].
+    destruct (V_q _ _ _ _ _ _ _ _ V c' x Hx') as (H1 & tx & Htx). split; [exact H1|].
     exists tx. assert (tx <> t).
-    { intros ->. rewrite Hpv in Htx. injection Htx as ->. congruence. }
+    { intros ->. rewrite Hpv in Htx. injection Htx as -> ->. congruence. }
     now rewrite Hold.
-  - apply remove_first_nodup, (V_qnd _ _ _ _ _ _ _ _ V).
-  - intros x e' H He. destruct (Nat.eq_dec x t) as [->|Hx]; [rewrite Hnew in H; discriminate|].
-    rewrite Hold in H by assumption. destruct (V_wait0 _ _ _ _ _ _ _ _ V x e' H He) as [H1 H2].
-    split; [|exact H2]. apply remove_first_in_other; [exact H1|]. eapply Hother; eauto.
-  - intros x e' H He. destruct (Nat.eq_dec x t) as [->|Hx]; [rewrite Hnew in H; discriminate|].
+  - intros c'. destruct (Nat.eq_dec c' c) as [->|Hc].
+    + rewrite upd_same. apply remove_first_nodup, (V_qnd _ _ _ _ _ _ _ _ V).
+    + rewrite upd_other by assumption. apply (V_qnd _ _ _ _ _ _ _ _ V).
+  - intros x c' e' H He. destruct (Nat.eq_dec x t) as [->|Hx]; [rewrite Hnew in H; discriminate|].
+    rewrite Hold in H by assumption. destruct (V_wait0 _ _ _ _ _ _ _ _ V x c' e' H He) as [H1 H2].
+    split; [|exact H2]. destruct (Nat.eq_dec c' c) as [->|Hc].
+    + rewrite upd_same. apply remove_first_in_other; [exact H1|]. eapply Hother; eauto.
+    + now rewrite upd_other.
+  - intros x c' e' H He. destruct (Nat.eq_dec x t) as [->|Hx]; [rewrite Hnew in H; discriminate|].
     rewrite Hold in H by assumption. eapply (V_wait1 _ _ _ _ _ _ _ _ V); eauto.
-  - intros x e' H. destruct (Nat.eq_dec x t) as [->|Hx]; [rewrite Hnew in H; discriminate|].
+  - intros x c' e' H. destruct (Nat.eq_dec x t) as [->|Hx]; [rewrite Hnew in H; discriminate|].
     rewrite Hold in H by assumption. eapply (V_reacq _ _ _ _ _ _ _ _ V); eauto.
-  - intros e' He. destruct (V_infl _ _ _ _ _ _ _ _ V e' He) as (H1 & tx & b' & Htx). split; [exact H1|].
-    exists tx, b'. assert (tx <> t).
-    { intros ->. rewrite Hpv in Htx. injection Htx as -> _. congruence. }
+  - intros e' He. destruct (V_infl _ _ _ _ _ _ _ _ V e' He) as (H1 & tx & cx & b' & Htx). split; [exact H1|].
+    exists tx, cx, b'. assert (tx <> t).
+    { intros ->. rewrite Hpv in Htx. injection Htx as -> -> _. congruence. }
     now rewrite Hold.
   - apply (V_inflnd _ _ _ _ _ _ _ _ V).
   - apply (V_setlog _ _ _ _ _ _ _ _ V).
-  - eapply subseq_trans; [apply remove_first_subseq|apply (V_fifo _ _ _ _ _ _ _ _ V)].
+  - intros c'. destruct (Nat.eq_dec c' c) as [->|Hc].
+    + rewrite upd_same. eapply subseq_trans; [apply remove_first_subseq|apply (V_fifo _ _ _ _ _ _ _ _ V)].
+    + rewrite upd_other by assumption. apply (V_fifo _ _ _ _ _ _ _ _ V).
 Qed.
 
 (* cancelling the waiter future of a queued, unset event *)
@@ -1026,9 +1057,9 @@ Lemma S_cancel_fut cw es ef ne ph cq sl infl e :
   EvS cw es (upd ef e FCancelled) ne ph cq sl infl.
 Proof.
   intros V Hef. destruct V. constructor; auto.
-  - intros t x H Hx. destruct (V_wait2 t x H Hx) as [H1 H2]. split; [exact H1|].
+  - intros t c x H Hx. destruct (V_wait2 t c x H Hx) as [H1 H2]. split; [exact H1|].
     destruct (Nat.eq_dec x e) as [->|Hne]; [rewrite upd_same; discriminate|now rewrite upd_other].
-  - intros t x H Hx. destruct (V_wait3 t x H Hx) as [H1 H2]. split; [|exact H2].
+  - intros t c x H Hx. destruct (V_wait3 t c x H Hx) as [H1 H2]. split; [|exact H2].
     destruct (Nat.eq_dec x e) as [->|Hne]; [rewrite upd_same; discriminate|now rewrite upd_other].
 Qed.
 
@@ -1039,57 +1070,63 @@ Proof.
   destruct H as [H|H]; [contradiction|]. cbn. now rewrite IH.
 Qed.
 
-Lemma do_set_unset s e :
+Lemma do_set_unset s e hz :
   eset s e = false ->
-  do_set s e = cmk (pinned s) (lk s) (owner_rec s) (cwaiters s) (upd (eset s) e true) (setf (efut s) e) (nev s)
-                   (cphase_of s) (cenq s) (setlog s ++ [e]) (inflight s) (issued s) (consumed s) (dropped s)
-                   (lost s).
+  do_set s e hz = cmk (variant s) (lk s) (owner_rec s) (cwaiters s) (upd (eset s) e true) (setf (efut s) e) (nev s)
+                      (cphase_of s) (cenq s) (setlog s ++ [e]) (inflight s) (upd (horizon s) e hz) (nlog s)
+                      (issued s) (consumed s) (dropped s) (lost s).
 Proof. intros H. unfold do_set, setf. rewrite H. reflexivity. Qed.
 
-Lemma notify_loop_ev n : forall s, EvInv s -> EvInv (notify_loop n s).
+Lemma notify_loop_ev n c hz : forall s, EvInv s -> EvInv (notify_loop n c hz s).
 Proof.
   induction n as [|k IH]; intros s V; cbn [notify_loop]; [exact V|].
-  destruct (cwaiters s) as [|e r] eqn:Ecw; [exact V|].
-  apply IH. destruct V as [V C]. rewrite Ecw in V.
-  destruct (V_q _ _ _ _ _ _ _ _ V e (or_introl eq_refl)) as (Hes & _).
-  rewrite (do_set_unset (with_cw s r) e) by (cnorm; exact Hes). unfold EvInv. cnorm. split.
-  - apply S_set_head, V.
+  destruct (cwaiters s c) as [|e r] eqn:Ecw; [exact V|].
+  apply IH. destruct V as [V C].
+  assert (Hin : In e (cwaiters s c)) by (rewrite Ecw; now left).
+  destruct (V_q _ _ _ _ _ _ _ _ V c e Hin) as (Hes & _).
+  rewrite (do_set_unset (with_cw s c r) e hz) by (cnorm; exact Hes). unfold EvInv. cnorm. split.
+  - apply S_set_head; assumption.
   - rewrite app_length. cbn. lia.
 Qed.
 
-Lemma finish_wait_ev s t e exc l' r :
-  cwaiters (fst (finish_wait s t e exc l' r)) = cwaiters s /\
-  eset (fst (finish_wait s t e exc l' r)) = eset s /\
-  efut (fst (finish_wait s t e exc l' r)) = efut s /\
-  nev (fst (finish_wait s t e exc l' r)) = nev s /\
-  cenq (fst (finish_wait s t e exc l' r)) = cenq s /\
-  setlog (fst (finish_wait s t e exc l' r)) = setlog s /\
-  inflight (fst (finish_wait s t e exc l' r)) =
+Lemma do_notify_ev s c n : EvInv s -> EvInv (do_notify s c n).
+Proof. intros V. unfold do_notify. apply notify_loop_ev. exact V. Qed.
+
+Lemma finish_wait_ev s t c e exc l' r :
+  cwaiters (fst (finish_wait s t c e exc l' r)) = cwaiters s /\
+  eset (fst (finish_wait s t c e exc l' r)) = eset s /\
+  efut (fst (finish_wait s t c e exc l' r)) = efut s /\
+  nev (fst (finish_wait s t c e exc l' r)) = nev s /\
+  cenq (fst (finish_wait s t c e exc l' r)) = cenq s /\
+  setlog (fst (finish_wait s t c e exc l' r)) = setlog s /\
+  inflight (fst (finish_wait s t c e exc l' r)) =
     (if exc then inflight s else match r with RBlocked => inflight s | _ => remove_first e (inflight s) end) /\
-  issued (fst (finish_wait s t e exc l' r)) = issued s /\
-  consumed (fst (finish_wait s t e exc l' r)) + dropped (fst (finish_wait s t e exc l' r))
-    + lost (fst (finish_wait s t e exc l' r)) =
-    (if exc then 0 else match r with RBlocked => 0 | _ => 1 end) + (consumed s + dropped s + lost s).
+  issued (fst (finish_wait s t c e exc l' r)) = issued s /\
+  consumed (fst (finish_wait s t c e exc l' r)) + dropped (fst (finish_wait s t c e exc l' r))
+    + lost (fst (finish_wait s t c e exc l' r)) =
+    (if exc then 0 else match r with RBlocked => 0 | _ => 1 end) + (consumed s + dropped s + lost s) /\
+  horizon (fst (finish_wait s t c e exc l' r)) = horizon s /\
+  nlog (fst (finish_wait s t c e exc l' r)) = nlog s.
 Proof. destruct r, exc; cbn; repeat split; lia. Qed.
 
 Ltac fw_atoms :=
   let a := fresh "ca" in let b := fresh "cb" in let c := fresh "cc" in
-  set (a := consumed (fst (finish_wait _ _ _ _ _ _))) in *;
-  set (b := dropped (fst (finish_wait _ _ _ _ _ _))) in *;
-  set (c := lost (fst (finish_wait _ _ _ _ _ _))) in *; clearbody a b c.
+  set (a := consumed (fst (finish_wait _ _ _ _ _ _ _))) in *;
+  set (b := dropped (fst (finish_wait _ _ _ _ _ _ _))) in *;
+  set (c := lost (fst (finish_wait _ _ _ _ _ _ _))) in *; clearbody a b c.
 
-Lemma ev_finish s t e exc l' r :
+Lemma ev_finish s t c e exc l' r :
   (exc = false -> EvInv s /\ eset s e = true /\
-                  (cphase_of s t = PWait e \/ (cphase_of s t = PReacq e false /\ r <> RBlocked))) ->
+                  (cphase_of s t = PWait c e \/ (cphase_of s t = PReacq c e false /\ r <> RBlocked))) ->
   (exc = true -> issued s = consumed s + length (inflight s) + dropped s + lost s /\
                  forall p', pv p' = None ->
                    EvS (cwaiters s) (eset s) (efut s) (nev s) (upd (cphase_of s) t p') (cenq s) (setlog s)
                        (inflight s)) ->
-  EvInv (fst (finish_wait s t e exc l' r)).
+  EvInv (fst (finish_wait s t c e exc l' r)).
 Proof.
   intros Hf Ht. unfold EvInv.
-  destruct (finish_wait_ev s t e exc l' r) as (-> & -> & -> & -> & -> & -> & Hi & Hiss & Hc).
-  destruct (finish_wait_proj s t e exc l' r) as (_ & _ & _ & ->).
+  destruct (finish_wait_ev s t c e exc l' r) as (-> & -> & -> & -> & -> & -> & Hi & Hiss & Hc & _).
+  destruct (finish_wait_proj s t c e exc l' r) as (_ & _ & ->).
   rewrite Hi, Hiss. destruct exc.
   - destruct (Ht eq_refl) as [C V]. cbv iota in Hc. fw_atoms. split; [|lia]. apply V. destruct r; reflexivity.
   - destruct (Hf eq_refl) as ([V C] & Hes & Hph).
@@ -1097,8 +1134,8 @@ Proof.
               EvS (cwaiters s) (eset s) (efut s) (nev s) (upd (cphase_of s) t p') (cenq s) (setlog s)
                   (remove_first e (inflight s)) /\ In e (inflight s)).
     { intros p' Hp'. destruct Hph as [Hph|[Hph _]].
-      - apply (S_leave_notified _ _ _ _ _ _ _ _ t e false); auto. now apply pv_wait.
-      - apply (S_leave_notified _ _ _ _ _ _ _ _ t e true); auto. now apply pv_reacq. }
+      - apply (S_leave_notified _ _ _ _ _ _ _ _ t c e false); auto. now apply pv_wait.
+      - apply (S_leave_notified _ _ _ _ _ _ _ _ t c e true); auto. now apply pv_reacq. }
     destruct r; cbv iota in Hc |- *; fw_atoms;
       try (destruct (Hleave PIdle eq_refl) as [V' Hin]; split; [exact V'|];
            pose proof (remove_first_length e _ Hin); unfold eid in *; lia).
@@ -1107,29 +1144,31 @@ Proof.
     split; [|lia]. apply S_block; assumption.
 Qed.
 
-Lemma ev_resume_wait s t e L0 x l' r :
-  EvInv s -> cphase_of s t = PWait e -> (x = false -> eset s e = true) ->
-  EvInv (fst (finish_wait (if x then wait_interrupted (with_lk s L0) e else with_lk s L0) t e x l' r)).
+Lemma ev_resume_wait s t c e L0 x l' r :
+  EvInv s -> cphase_of s t = PWait c e -> (x = false -> eset s e = true) ->
+  EvInv (fst (finish_wait (if x then wait_interrupted (with_lk s L0) c e else with_lk s L0) t c e x l' r)).
 Proof.
-  intros [V C] Hph Hx. assert (Hpv : pv (cphase_of s t) = Some (e, false)) by (now apply pv_wait).
+  intros [V C] Hph Hx. assert (Hpv : pv (cphase_of s t) = Some (c, e, false)) by (now apply pv_wait).
   destruct x; apply ev_finish; try discriminate.
   - intros _. unfold wait_interrupted. cnorm. destruct (eset s e) eqn:Ees.
-    + destruct (cwaiters s) as [|h q] eqn:Ecw.
-      * cnorm. rewrite Ecw.
+    + destruct (cwaiters s c) as [|h q] eqn:Ecw.
+      * cnorm.
         assert (Hl : forall p', pv p' = None ->
-                  EvS [] (eset s) (efut s) (nev s) (upd (cphase_of s) t p') (cenq s) (setlog s)
+                  EvS (cwaiters s) (eset s) (efut s) (nev s) (upd (cphase_of s) t p') (cenq s) (setlog s)
                       (remove_first e (inflight s)) /\ In e (inflight s)).
-        { intros p' Hp'. apply (S_leave_notified _ _ _ _ _ _ _ _ t e false); auto. }
+        { intros p' Hp'. apply (S_leave_notified _ _ _ _ _ _ _ _ t c e false); auto. }
         destruct (Hl PIdle eq_refl) as [_ Hin]. pose proof (remove_first_length e _ Hin).
         split; [unfold eid in *; lia|]. intros p' Hp'. apply Hl, Hp'.
-      * destruct (V_q _ _ _ _ _ _ _ _ V h (or_introl eq_refl)) as (Hes & _).
-        rewrite (do_set_unset (with_cw (with_lk s L0) q) h) by (cnorm; exact Hes). cnorm.
+      * assert (Hinq : In h (cwaiters s c)) by (rewrite Ecw; now left).
+        destruct (V_q _ _ _ _ _ _ _ _ V c h Hinq) as (Hes & _).
+        rewrite (do_set_unset (with_cw (with_lk s L0) c q) h (horizon s e)) by (cnorm; exact Hes). cnorm.
         assert (Hne : e <> h) by congruence.
-        pose proof (S_set_head _ _ _ _ _ _ _ _ _ V) as V1.
+        pose proof (S_set_head c h q _ _ _ _ _ _ _ _ V Ecw) as V1.
         assert (Hl : forall p', pv p' = None ->
-                  EvS q (upd (eset s) h true) (setf (efut s) h) (nev s) (upd (cphase_of s) t p') (cenq s)
+                  EvS (upd (cwaiters s) c q) (upd (eset s) h true) (setf (efut s) h) (nev s)
+                      (upd (cphase_of s) t p') (cenq s)
                       (setlog s ++ [h]) (remove_first e (inflight s ++ [h])) /\ In e (inflight s ++ [h])).
-        { intros p' Hp'. apply (S_leave_notified _ _ _ _ _ _ _ _ t e false); auto.
+        { intros p' Hp'. apply (S_leave_notified _ _ _ _ _ _ _ _ t c e false); auto.
           now rewrite upd_other. }
         assert (Hin : In e (inflight s)).
         { destruct (Hl PIdle eq_refl) as [_ H]. apply in_app_or in H. destruct H as [H|[H|[]]]; congruence. }
@@ -1143,84 +1182,95 @@ Qed.
 
 Lemma ev_phase_none s t p' L O :
   EvInv s -> pv (cphase_of s t) = None -> pv p' = None ->
-  EvInv (cmk (pinned s) L O (cwaiters s) (eset s) (efut s) (nev s) (upd (cphase_of s) t p') (cenq s)
-             (setlog s) (inflight s) (issued s) (consumed s) (dropped s) (lost s)).
+  EvInv (cmk (variant s) L O (cwaiters s) (eset s) (efut s) (nev s) (upd (cphase_of s) t p') (cenq s)
+             (setlog s) (inflight s) (horizon s) (nlog s) (issued s) (consumed s) (dropped s) (lost s)).
 Proof.
   intros [V C] H1 H2. unfold EvInv. cnorm. split; [|exact C].
   eapply S_phase_ext; [|exact V]. now apply pv_upd_none.
 Qed.
 
-Lemma cstep_evinv s o : pinned s = false -> LkInv s -> EvInv s -> EvInv (fst (cstep s o)).
+Lemma ev_acquire_begin s oc t o :
+  EvInv s -> cphase_of s t = PIdle -> EvInv (fst (acquire_begin s oc t o)).
 Proof.
-  intros Hpin K V. unfold LkInv in K.
-  destruct o as [t|t|t|t n|t|t|t|t|t]; cbn [cstep].
-  - (* CAcquire *)
-    destruct (c_is_idle (cphase_of s t)) eqn:Ei; cbn [negb fst]; [|exact V].
-    apply c_is_idle_true in Ei.
-    destruct (Lock.step (lk s) (AcqBegin t)) as [l' r].
-    destruct r; cbn [fst]; try exact V.
-    apply (ev_phase_none s t PAcq); auto. now rewrite Ei.
-  - (* CAcqNowait *)
-    destruct (c_is_idle (cphase_of s t)) eqn:Ei; cbn [negb fst]; [|exact V].
-    destruct (Lock.step (lk s) (AcqNowait t)) as [l' r].
-    destruct r; cbn [fst]; exact V.
-  - (* CRelease *)
-    destruct (c_is_idle (cphase_of s t)) eqn:Ei; cbn [negb fst]; [|exact V].
+  intros V Ei. unfold acquire_begin. destruct (Lock.step (lk s) o) as [l' r].
+  destruct r; cbn [fst]; try exact V.
+  apply (ev_phase_none s t (PAcq oc)); auto. now rewrite Ei.
+Qed.
+
+(* at HEAD the holder test and the lock agree: an accepted wait() always manages to release *)
+Lemma head_check_release s c t l' r :
+  variant s = 0 -> holder_check s c t = true -> phase_of (lk s) t = Idle ->
+  Lock.step (lk s) (Release t) = (l', r) -> r = RDone.
+Proof.
+  intros Hv Hc Hli E. unfold holder_check in Hc. rewrite Hv in Hc. apply tid_eqb_opt_true in Hc.
+  pose proof (lstep_release_res _ t _ _ Hli E) as R. destruct r; try contradiction; [reflexivity|].
+  destruct R as [_ Hno]. contradiction.
+Qed.
+
+Lemma cstep_evinv s o : variant s = 0 -> LkInv s -> EvInv s -> EvInv (fst (cstep s o)).
+Proof.
+  intros Hv K V. unfold LkInv in K.
+  destruct o as [c t|c t|c t|c t n|c t|c t|t|t|t|t|t|t]; cbn [cstep].
+  - destruct (c_is_idle (cphase_of s t)) eqn:Ei; cbn [negb fst]; [|exact V].
+    apply c_is_idle_true in Ei. now apply ev_acquire_begin.
+  - destruct (c_is_idle (cphase_of s t)) eqn:Ei; cbn [negb fst]; [|exact V].
+    apply c_is_idle_true in Ei. now apply ev_acquire_begin.
+  - destruct (c_is_idle (cphase_of s t)) eqn:Ei; cbn [negb fst]; [|exact V].
     destruct (Lock.step (lk s) (Release t)) as [l' r].
     destruct r; cbn [fst]; exact V.
-  - (* CNotify *)
-    destruct (c_is_idle (cphase_of s t)) eqn:Ei; cbn [negb fst]; [|exact V].
-    destruct (tid_eqb_opt (owner_rec s) t); cbn [fst]; [|exact V].
-    apply notify_loop_ev, V.
-  - (* CNotifyAll *)
-    destruct (c_is_idle (cphase_of s t)) eqn:Ei; cbn [negb fst]; [|exact V].
-    destruct (tid_eqb_opt (owner_rec s) t); cbn [fst]; [|exact V].
-    apply notify_loop_ev, V.
+  - destruct (c_is_idle (cphase_of s t)) eqn:Ei; cbn [negb fst]; [|exact V].
+    destruct (holder_check s c t); cbn [fst]; [|exact V].
+    apply do_notify_ev, V.
+  - destruct (c_is_idle (cphase_of s t)) eqn:Ei; cbn [negb fst]; [|exact V].
+    destruct (holder_check s c t); cbn [fst]; [|exact V].
+    apply do_notify_ev, V.
   - (* CWait *)
     destruct (c_is_idle (cphase_of s t)) eqn:Ei; cbn [negb fst]; [|exact V].
     apply c_is_idle_true in Ei.
-    destruct (tid_eqb_opt (owner_rec s) t) eqn:Eo; cbn [fst]; [|exact V].
-    apply tid_eqb_opt_true in Eo.
-    assert (Hin : In t (held (lk s))) by (apply (K_owner _ _ _ K); exact Eo).
-    assert (Hli : phase_of (lk s) t = Idle) by (apply (K_coupling _ _ _ K); rewrite Ei; reflexivity).
+    destruct (holder_check s c t) eqn:Eo; cbn [fst]; [|exact V].
+    assert (Hli : phase_of (lk s) t = Idle) by (apply (K_coupling _ _ K); rewrite Ei; reflexivity).
     destruct (Lock.step (lk s) (Release t)) as [l' r] eqn:E.
-    pose proof (lstep_release_res _ t _ _ Hli E) as R.
-    destruct r; try contradiction; cbn [fst].
-    + destruct V as [V C]. unfold EvInv. cnorm. split; [|exact C].
-      apply S_enqueue; [exact V|]. now rewrite Ei.
-    + destruct R as [_ Hno]. exfalso. apply Hno. apply (I_owner _ (K_lock _ _ _ K)). left. exact Hin.
+    rewrite (head_check_release s c t l' r Hv Eo Hli E). cbn [fst].
+    destruct V as [V C]. unfold EvInv. cnorm. split; [|exact C].
+    apply S_enqueue; [exact V|]. now rewrite Ei.
+  - destruct (c_is_idle (cphase_of s t)) eqn:Ei; cbn [negb fst]; [|exact V].
+    apply c_is_idle_true in Ei. now apply ev_acquire_begin.
+  - destruct (c_is_idle (cphase_of s t)) eqn:Ei; cbn [negb fst]; [|exact V].
+    apply c_is_idle_true in Ei. now apply ev_acquire_begin.
+  - destruct (c_is_idle (cphase_of s t)) eqn:Ei; cbn [negb fst]; [|exact V].
+    destruct (Lock.step (lk s) (Release t)) as [l' r]. exact V.
   - (* CResume *)
-    destruct (cphase_of s t) as [| |e|e exc] eqn:Ep; [exact V| | |].
+    destruct (cphase_of s t) as [|oc|c e|c e exc] eqn:Ep; [exact V| | |].
     + destruct (Lock.step (lk s) (Resume t)) as [l' r].
       destruct r; cbn [fst]; try exact V; apply (ev_phase_none s t PIdle); auto; now rewrite Ep.
     + destruct (efut s e) eqn:Ef; [exact V| |].
       * match goal with |- context [Lock.step ?L ?o] => destruct (Lock.step L o) as [l' r] end.
         apply ev_resume_wait; auto. intros _.
         destruct (eset s e) eqn:Ees; [reflexivity|]. exfalso.
-        destruct V as [V _]. assert (Hpv : pv (cphase_of s t) = Some (e, false)) by (now apply pv_wait).
-        destruct (V_wait0 _ _ _ _ _ _ _ _ V t e Hpv Ees) as [_ H]. contradiction.
+        destruct V as [V _]. assert (Hpv : pv (cphase_of s t) = Some (c, e, false)) by (now apply pv_wait).
+        destruct (V_wait0 _ _ _ _ _ _ _ _ V t c e Hpv Ees) as [_ H]. contradiction.
       * match goal with |- context [Lock.step ?L ?o] => destruct (Lock.step L o) as [l' r] end.
-        apply (ev_resume_wait s t e _ true); auto. discriminate.
+        apply (ev_resume_wait s t c e _ true); auto. discriminate.
     + destruct (Lock.step (lk s) (Resume t)) as [l' r] eqn:E.
-      assert (Hfin : r <> RRejected -> EvInv (fst (finish_wait s t e exc l' r))).
+      assert (Hfin : r <> RRejected -> EvInv (fst (finish_wait s t c e exc l' r))).
       { intros Hr. apply ev_finish.
         - intros ->. refine (conj V (conj _ _)).
-          + destruct V as [V _]. apply (V_reacq _ _ _ _ _ _ _ _ V t e). now apply pv_reacq.
+          + destruct V as [V _]. apply (V_reacq _ _ _ _ _ _ _ _ V t c e). now apply pv_reacq.
           + right. split; [exact Ep|]. intros ->.
             assert (Hli : phase_of (lk s) t <> Idle).
-            { intros H. apply (K_coupling _ _ _ K) in H. rewrite Ep in H. discriminate. }
-            pose proof (lstep_resume_res _ t _ _ (K_lock _ _ _ K) Hli E) as R. exact R.
+            { intros H. apply (K_coupling _ _ K) in H. rewrite Ep in H. discriminate. }
+            pose proof (lstep_resume_res _ t _ _ (K_lock _ _ K) Hli E) as R. exact R.
         - intros ->. destruct V as [V C]. split; [exact C|]. intros p' Hp'.
           eapply S_phase_ext; [|exact V]. apply pv_upd_none; [now rewrite Ep|exact Hp']. }
       destruct r; try (apply Hfin; discriminate). exact V.
   - (* CCancel *)
-    destruct (cphase_of s t) as [| |e|e exc] eqn:Ep; [exact V| | |].
+    destruct (cphase_of s t) as [|oc|c e|c e exc] eqn:Ep; [exact V| | |].
     + destruct (Lock.step (lk s) (Cancel t)) as [l' r]. exact V.
     + destruct (efut s e) eqn:Ef; cbn [fst]; try exact V.
       destruct V as [V C]. unfold EvInv. cnorm. split; [|exact C]. apply S_cancel_fut; assumption.
     + destruct (Lock.step (lk s) (Cancel t)) as [l' r]. exact V.
   - (* CScopeCancel *)
-    destruct (cphase_of s t) as [| |e|e exc] eqn:Ep; [exact V| | |exact V].
+    destruct (cphase_of s t) as [|oc|c e|c e exc] eqn:Ep; [exact V| | |exact V].
     + destruct (phase_of (lk s) t) as [| |f]; try exact V.
       destruct (futs (lk s) f); try exact V.
       destruct (Lock.step (lk s) (Cancel t)) as [l' r]. exact V.
@@ -1229,53 +1279,58 @@ Proof.
 Qed.
 
 (* ====================================================================================================== *)
-(*  the combined invariant                                                                                *)
+(*  the combined invariant (HEAD: variant 0)                                                              *)
 (* ====================================================================================================== *)
-Record CInv (s : cst) : Prop := { C_pin : pinned s = false; C_lk : LkInv s; C_ev : EvInv s }.
+Record CInv (s : cst) : Prop := { C_var : variant s = 0; C_lk : LkInv s; C_ev : EvInv s }.
 
-Lemma cinv_init fa : CInv (cinit fa false).
+Lemma cinv_init fa : CInv (cinit fa 0).
 Proof.
   constructor; [reflexivity| |].
   - unfold LkInv. cbn. constructor.
     + apply inv_init.
     + intros t. cbn. tauto.
-    + intros t. cbn. split; [discriminate|tauto].
     + intros t [].
   - split; [apply S_init|reflexivity].
 Qed.
 
-Lemma cstep_pinned s o : pinned (fst (cstep s o)) = pinned s.
+Lemma acquire_begin_variant s oc t o : variant (fst (acquire_begin s oc t o)) = variant s.
+Proof. unfold acquire_begin. destruct (Lock.step _ _) as [l' r]. destruct r; reflexivity. Qed.
+
+Lemma cstep_variant s o : variant (fst (cstep s o)) = variant s.
 Proof.
-  destruct o as [t|t|t|t n|t|t|t|t|t]; cbn [cstep].
+  destruct o as [c t|c t|c t|c t n|c t|c t|t|t|t|t|t|t]; cbn [cstep].
+  - destruct (negb _); [reflexivity|]. apply acquire_begin_variant.
+  - destruct (negb _); [reflexivity|]. apply acquire_begin_variant.
   - destruct (negb _); [reflexivity|]. destruct (Lock.step _ _) as [l' r]. destruct r; reflexivity.
-  - destruct (negb _); [reflexivity|]. destruct (Lock.step _ _) as [l' r]. destruct r; reflexivity.
-  - destruct (negb _); [reflexivity|]. destruct (Lock.step _ _) as [l' r]. destruct r; reflexivity.
-  - destruct (negb _); [reflexivity|]. destruct (tid_eqb_opt _ _); [|reflexivity]. apply notify_loop_proj.
-  - destruct (negb _); [reflexivity|]. destruct (tid_eqb_opt _ _); [|reflexivity]. apply notify_loop_proj.
-  - destruct (negb _); [reflexivity|]. destruct (tid_eqb_opt _ _); [|reflexivity].
+  - destruct (negb _); [reflexivity|]. destruct (holder_check _ _ _); [|reflexivity]. apply do_notify_proj.
+  - destruct (negb _); [reflexivity|]. destruct (holder_check _ _ _); [|reflexivity]. apply do_notify_proj.
+  - destruct (negb _); [reflexivity|]. destruct (holder_check _ _ _); [|reflexivity].
     destruct (Lock.step _ _) as [l' r]. destruct r; reflexivity.
-  - destruct (cphase_of s t) as [| |e|e exc]; [reflexivity| | |].
+  - destruct (negb _); [reflexivity|]. apply acquire_begin_variant.
+  - destruct (negb _); [reflexivity|]. apply acquire_begin_variant.
+  - destruct (negb _); [reflexivity|]. destruct (Lock.step _ _) as [l' r]. reflexivity.
+  - destruct (cphase_of s t) as [|oc|c e|c e exc]; [reflexivity| | |].
     + destruct (Lock.step _ _) as [l' r]. destruct r; reflexivity.
     + destruct (efut s e); [reflexivity| |].
       * match goal with |- context [Lock.step ?L ?o] => destruct (Lock.step L o) as [l' r] end.
         destruct (finish_wait_proj
-                    (if mustc (lk s) t then wait_interrupted (with_lk s (set_mustc (lk s) t false)) e
-                     else with_lk s (set_mustc (lk s) t false)) t e (mustc (lk s) t) l' r) as (_ & -> & _).
+                    (if mustc (lk s) t then wait_interrupted (with_lk s (set_mustc (lk s) t false)) c e
+                     else with_lk s (set_mustc (lk s) t false)) t c e (mustc (lk s) t) l' r) as (_ & -> & _).
         destruct (mustc (lk s) t); [|reflexivity].
-        destruct (wait_interrupted_proj (with_lk s (set_mustc (lk s) t false)) e) as (_ & _ & _ & ->).
+        destruct (wait_interrupted_proj (with_lk s (set_mustc (lk s) t false)) c e) as (_ & _ & ->).
         reflexivity.
       * match goal with |- context [Lock.step ?L ?o] => destruct (Lock.step L o) as [l' r] end.
-        destruct (finish_wait_proj (wait_interrupted (with_lk s (set_mustc (lk s) t false)) e) t e true l' r)
+        destruct (finish_wait_proj (wait_interrupted (with_lk s (set_mustc (lk s) t false)) c e) t c e true l' r)
           as (_ & -> & _).
-        destruct (wait_interrupted_proj (with_lk s (set_mustc (lk s) t false)) e) as (_ & _ & _ & ->).
+        destruct (wait_interrupted_proj (with_lk s (set_mustc (lk s) t false)) c e) as (_ & _ & ->).
         reflexivity.
     + destruct (Lock.step _ _) as [l' r].
       destruct r; try reflexivity; apply finish_wait_proj.
-  - destruct (cphase_of s t) as [| |e|e exc]; [reflexivity| | |].
+  - destruct (cphase_of s t) as [|oc|c e|c e exc]; [reflexivity| | |].
     + destruct (Lock.step _ _) as [l' r]. reflexivity.
     + destruct (efut s e); reflexivity.
     + destruct (Lock.step _ _) as [l' r]. reflexivity.
-  - destruct (cphase_of s t) as [| |e|e exc]; [reflexivity| | |reflexivity].
+  - destruct (cphase_of s t) as [|oc|c e|c e exc]; [reflexivity| | |reflexivity].
     + destruct (phase_of (lk s) t); try reflexivity. destruct (futs _ _); try reflexivity.
       destruct (Lock.step _ _) as [l' r]. reflexivity.
     + destruct (efut s e); reflexivity.
@@ -1284,12 +1339,12 @@ Qed.
 Lemma cstep_inv s o : CInv s -> CInv (fst (cstep s o)).
 Proof.
   intros [P K V]. constructor.
-  - now rewrite cstep_pinned.
+  - now rewrite cstep_variant.
   - now apply cstep_lkinv.
   - now apply cstep_evinv.
 Qed.
 
-Theorem creachable_inv fa ops : CInv (final cstep (cinit fa false) ops).
+Theorem creachable_inv fa ops : CInv (final cstep (cinit fa 0) ops).
 Proof. apply final_inv; [apply cstep_inv|apply cinv_init]. Qed.
 
 (* ====================================================================================================== *)
@@ -1298,7 +1353,7 @@ Proof. apply final_inv; [apply cstep_inv|apply cinv_init]. Qed.
 Definition reacq_ok (l : Lock.st) (t : tid) : Prop :=
   mustc l t = false /\ forall f, phase_of l t = Waiting f -> futs l f <> FCancelled.
 
-Definition QInv (s : cst) : Prop := forall t e x, cphase_of s t = PReacq e x -> reacq_ok (lk s) t.
+Definition QInv (s : cst) : Prop := forall t c e x, cphase_of s t = PReacq c e x -> reacq_ok (lk s) t.
 
 Lemma do_release_futs s t f : futs (do_release s t) f = FCancelled -> futs s f = FCancelled.
 Proof.
@@ -1352,33 +1407,34 @@ Proof. intros Hne [H1 H2]. split; cbn; [now rewrite upd_other|exact H2]. Qed.
 Lemma Q_generic s u l' ph' :
   QInv s -> (forall t, t <> u -> ph' t = cphase_of s t) ->
   (forall t, t <> u -> reacq_ok (lk s) t -> reacq_ok l' t) ->
-  (forall e x, ph' u = PReacq e x -> reacq_ok l' u) ->
-  forall t e x, ph' t = PReacq e x -> reacq_ok l' t.
+  (forall c e x, ph' u = PReacq c e x -> reacq_ok l' u) ->
+  forall t c e x, ph' t = PReacq c e x -> reacq_ok l' t.
 Proof.
-  intros Q F1 F2 F3 t e x H. destruct (Nat.eq_dec t u) as [->|Hne]; [eauto|].
+  intros Q F1 F2 F3 t c e x H. destruct (Nat.eq_dec t u) as [->|Hne]; [eauto|].
   apply F2; [exact Hne|]. rewrite F1 in H by exact Hne. eapply Q; eauto.
+Qed.
+
+Lemma q_acquire_begin s oc t o :
+  LkInv s -> QInv s -> (o = AcqBegin t \/ o = AcqNowait t) -> cphase_of s t = PIdle ->
+  QInv (fst (acquire_begin s oc t o)).
+Proof.
+  intros K Q Ho Ei. unfold LkInv in K. pose proof (K_lock _ _ K) as I. unfold acquire_begin.
+  destruct (Lock.step (lk s) o) as [l' r] eqn:E.
+  assert (Hlt : lop_task o = t) by (destruct Ho as [-> | ->]; reflexivity).
+  assert (F : forall x, x <> t -> reacq_ok (lk s) x -> reacq_ok l' x).
+  { intros x Hx. eapply RF_step; eauto. now rewrite Hlt. }
+  destruct r; cbn [fst]; unfold QInv; cnorm; apply (Q_generic s t); auto;
+    try apply upd_other_fun; intros c e x; rewrite ?upd_same; congruence.
 Qed.
 
 Lemma cstep_qinv s o : CInv s -> QInv s -> native_reacq s o = false -> QInv (fst (cstep s o)).
 Proof.
-  intros [P K V] Q Hn. unfold LkInv in K. pose proof (K_lock _ _ _ K) as I.
-  destruct o as [t|t|t|t n|t|t|t|t|t]; cbn [cstep].
-  - (* CAcquire *)
-    destruct (c_is_idle (cphase_of s t)) eqn:Ei; cbn [negb fst]; [|exact Q].
-    apply c_is_idle_true in Ei.
-    destruct (Lock.step (lk s) (AcqBegin t)) as [l' r] eqn:E.
-    assert (F : forall x, x <> t -> reacq_ok (lk s) x -> reacq_ok l' x)
-      by (intros x Hx; eapply RF_step; eauto).
-    destruct r; cbn [fst]; unfold QInv; cnorm; apply (Q_generic s t); auto;
-      try apply upd_other_fun; intros e x; rewrite ?upd_same; congruence.
-  - (* CAcqNowait *)
-    destruct (c_is_idle (cphase_of s t)) eqn:Ei; cbn [negb fst]; [|exact Q].
-    apply c_is_idle_true in Ei.
-    destruct (Lock.step (lk s) (AcqNowait t)) as [l' r] eqn:E.
-    assert (F : forall x, x <> t -> reacq_ok (lk s) x -> reacq_ok l' x)
-      by (intros x Hx; eapply RF_step; eauto).
-    destruct r; cbn [fst]; unfold QInv; cnorm; apply (Q_generic s t); auto;
-      intros e x; congruence.
+  intros [P K V] Q Hn. pose proof K as K'. unfold LkInv in K. pose proof (K_lock _ _ K) as I.
+  destruct o as [c t|c t|c t|c t n|c t|c t|t|t|t|t|t|t]; cbn [cstep].
+  - destruct (c_is_idle (cphase_of s t)) eqn:Ei; cbn [negb fst]; [|exact Q].
+    apply c_is_idle_true in Ei. apply q_acquire_begin; auto.
+  - destruct (c_is_idle (cphase_of s t)) eqn:Ei; cbn [negb fst]; [|exact Q].
+    apply c_is_idle_true in Ei. apply q_acquire_begin; auto.
   - (* CRelease *)
     destruct (c_is_idle (cphase_of s t)) eqn:Ei; cbn [negb fst]; [|exact Q].
     apply c_is_idle_true in Ei.
@@ -1386,45 +1442,54 @@ Proof.
     assert (F : forall x, x <> t -> reacq_ok (lk s) x -> reacq_ok l' x)
       by (intros x Hx; eapply RF_step; eauto).
     destruct r; cbn [fst]; unfold QInv; cnorm; apply (Q_generic s t); auto;
-      intros e x; congruence.
-  - (* CNotify *)
-    destruct (c_is_idle (cphase_of s t)) eqn:Ei; cbn [negb fst]; [|exact Q].
-    destruct (tid_eqb_opt (owner_rec s) t); cbn [fst]; [|exact Q].
-    unfold QInv. destruct (notify_loop_proj n s) as (-> & _ & -> & _). exact Q.
-  - (* CNotifyAll *)
-    destruct (c_is_idle (cphase_of s t)) eqn:Ei; cbn [negb fst]; [|exact Q].
-    destruct (tid_eqb_opt (owner_rec s) t); cbn [fst]; [|exact Q].
-    unfold QInv. destruct (notify_loop_proj (length (cwaiters s)) s) as (-> & _ & -> & _). exact Q.
+      intros c0 e x; congruence.
+  - destruct (c_is_idle (cphase_of s t)) eqn:Ei; cbn [negb fst]; [|exact Q].
+    destruct (holder_check s c t); cbn [fst]; [|exact Q].
+    unfold QInv. destruct (do_notify_proj s c n) as (-> & -> & _). exact Q.
+  - destruct (c_is_idle (cphase_of s t)) eqn:Ei; cbn [negb fst]; [|exact Q].
+    destruct (holder_check s c t); cbn [fst]; [|exact Q].
+    unfold QInv. destruct (do_notify_proj s c (length (cwaiters s c))) as (-> & -> & _). exact Q.
   - (* CWait *)
     destruct (c_is_idle (cphase_of s t)) eqn:Ei; cbn [negb fst]; [|exact Q].
     apply c_is_idle_true in Ei.
-    destruct (tid_eqb_opt (owner_rec s) t) eqn:Eo; cbn [fst]; [|exact Q].
+    destruct (holder_check s c t) eqn:Eo; cbn [fst]; [|exact Q].
     destruct (Lock.step (lk s) (Release t)) as [l' r] eqn:E.
     assert (F : forall x, x <> t -> reacq_ok (lk s) x -> reacq_ok l' x)
       by (intros x Hx; eapply RF_step; eauto).
     destruct r; cbn [fst]; unfold QInv; cnorm; apply (Q_generic s t); auto;
-      try apply upd_other_fun; intros e x; rewrite ?upd_same; congruence.
+      try apply upd_other_fun; intros c0 e x; rewrite ?upd_same; congruence.
+  - destruct (c_is_idle (cphase_of s t)) eqn:Ei; cbn [negb fst]; [|exact Q].
+    apply c_is_idle_true in Ei. apply q_acquire_begin; auto.
+  - destruct (c_is_idle (cphase_of s t)) eqn:Ei; cbn [negb fst]; [|exact Q].
+    apply c_is_idle_true in Ei. apply q_acquire_begin; auto.
+  - (* LRelease *)
+    destruct (c_is_idle (cphase_of s t)) eqn:Ei; cbn [negb fst]; [|exact Q].
+    apply c_is_idle_true in Ei.
+    destruct (Lock.step (lk s) (Release t)) as [l' r] eqn:E.
+    assert (F : forall x, x <> t -> reacq_ok (lk s) x -> reacq_ok l' x)
+      by (intros x Hx; eapply RF_step; eauto).
+    cbn [fst]; unfold QInv; cnorm; apply (Q_generic s t); auto; intros c0 e x; congruence.
   - (* CResume *)
-    destruct (cphase_of s t) as [| |e|e exc] eqn:Ep; [exact Q| | |].
+    destruct (cphase_of s t) as [|oc|c e|c e exc] eqn:Ep; [exact Q| | |].
     + destruct (Lock.step (lk s) (Resume t)) as [l' r] eqn:E.
       assert (F : forall x, x <> t -> reacq_ok (lk s) x -> reacq_ok l' x)
         by (intros x Hx; eapply RF_step; eauto).
       destruct r; cbn [fst]; try exact Q; unfold QInv; cnorm; apply (Q_generic s t); auto;
-        try apply upd_other_fun; intros e x; rewrite ?upd_same; congruence.
-    + pose proof (LK_mustc _ _ _ t false K) as K0. pose proof (K_lock _ _ _ K0) as I0.
+        try apply upd_other_fun; intros c0 e x; rewrite ?upd_same; congruence.
+    + pose proof (LK_mustc _ _ t false K) as K0. pose proof (K_lock _ _ K0) as I0.
       assert (Hli : phase_of (set_mustc (lk s) t false) t = Idle)
-        by (apply (K_coupling _ _ _ K0); rewrite Ep; reflexivity).
+        by (apply (K_coupling _ _ K0); rewrite Ep; reflexivity).
       assert (Hfin : forall s1 xx,
-                 lk s1 = set_mustc (lk s) t false /\ owner_rec s1 = owner_rec s /\ cphase_of s1 = cphase_of s ->
-                 QInv (fst (let '(l', r) := Lock.step (lk s1) (AcqBegin t) in finish_wait s1 t e xx l' r))).
-      { intros s1 xx (P1 & P2 & P3). rewrite P1.
+                 lk s1 = set_mustc (lk s) t false /\ cphase_of s1 = cphase_of s ->
+                 QInv (fst (let '(l', r) := Lock.step (lk s1) (AcqBegin t) in finish_wait s1 t c e xx l' r))).
+      { intros s1 xx (P1 & P3). rewrite P1.
         destruct (Lock.step (set_mustc (lk s) t false) (AcqBegin t)) as [l' r] eqn:E.
         pose proof (lstep_acq_res _ t _ _ _ (or_introl eq_refl) Hli E) as R.
-        unfold QInv. destruct (finish_wait_proj s1 t e xx l' r) as (-> & _ & _ & ->). rewrite P3.
+        unfold QInv. destruct (finish_wait_proj s1 t c e xx l' r) as (-> & _ & ->). rewrite P3.
         apply (Q_generic s t); auto.
         - apply upd_other_fun.
         - intros x Hx Hok. eapply RF_step; [exact I0|exact E|exact Hx|]. now apply RF_mustc.
-        - intros e' x'. rewrite upd_same. destruct r; try discriminate. intros _.
+        - intros c' e' x'. rewrite upd_same. destruct r; try discriminate. intros _.
           destruct R as (_ & _ & Rm & Rf). split.
           + rewrite Rm. cbn. apply upd_same.
           + intros f Hf. rewrite (Rf f Hf). discriminate. }
@@ -1435,29 +1500,139 @@ Proof.
       assert (F : forall x, x <> t -> reacq_ok (lk s) x -> reacq_ok l' x)
         by (intros x Hx; eapply RF_step; eauto).
       assert (Hli : phase_of (lk s) t <> Idle).
-      { intros H. apply (K_coupling _ _ _ K) in H. rewrite Ep in H. discriminate. }
+      { intros H. apply (K_coupling _ _ K) in H. rewrite Ep in H. discriminate. }
       pose proof (lstep_resume_res _ t _ _ I Hli E) as R.
       destruct r; try contradiction; try exact Q.
-      * unfold QInv. destruct (finish_wait_proj s t e exc l' RDone) as (-> & _ & _ & ->).
-        apply (Q_generic s t); auto; try apply upd_other_fun. intros e' x'. rewrite upd_same. discriminate.
-      * unfold QInv. destruct (finish_wait_proj s t e exc l' RCancelled) as (-> & _ & _ & ->).
-        apply (Q_generic s t); auto; try apply upd_other_fun. intros e' x'. rewrite upd_same. discriminate.
+      * unfold QInv. destruct (finish_wait_proj s t c e exc l' RDone) as (-> & _ & ->).
+        apply (Q_generic s t); auto; try apply upd_other_fun. intros c' e' x'. rewrite upd_same. discriminate.
+      * unfold QInv. destruct (finish_wait_proj s t c e exc l' RCancelled) as (-> & _ & ->).
+        apply (Q_generic s t); auto; try apply upd_other_fun. intros c' e' x'. rewrite upd_same. discriminate.
   - (* CCancel *)
     cbn [native_reacq] in Hn.
-    destruct (cphase_of s t) as [| |e|e exc] eqn:Ep; [exact Q| | |discriminate].
+    destruct (cphase_of s t) as [|oc|c e|c e exc] eqn:Ep; [exact Q| | |discriminate].
     + destruct (Lock.step (lk s) (Cancel t)) as [l' r] eqn:E.
       assert (F : forall x, x <> t -> reacq_ok (lk s) x -> reacq_ok l' x)
         by (intros x Hx; eapply RF_step; eauto).
-      cbn [fst]; unfold QInv; cnorm; apply (Q_generic s t); auto. intros e x; congruence.
+      cbn [fst]; unfold QInv; cnorm; apply (Q_generic s t); auto. intros c0 e x; congruence.
     + destruct (efut s e); cbn [fst]; unfold QInv; cnorm; try exact Q;
-        apply (Q_generic s t); auto; try (intros x Hx; now apply RF_mustc); intros e' x; congruence.
+        apply (Q_generic s t); auto; try (intros x Hx; now apply RF_mustc); intros c' e' x; congruence.
   - (* CScopeCancel *)
-    destruct (cphase_of s t) as [| |e|e exc] eqn:Ep; [exact Q| | |exact Q].
+    destruct (cphase_of s t) as [|oc|c e|c e exc] eqn:Ep; [exact Q| | |exact Q].
     + destruct (phase_of (lk s) t) as [| |f]; try exact Q.
       destruct (futs (lk s) f); try exact Q.
       destruct (Lock.step (lk s) (Cancel t)) as [l' r] eqn:E.
       assert (F : forall x, x <> t -> reacq_ok (lk s) x -> reacq_ok l' x)
         by (intros x Hx; eapply RF_step; eauto).
-      cbn [fst]; unfold QInv; cnorm; apply (Q_generic s t); auto. intros e x; congruence.
+      cbn [fst]; unfold QInv; cnorm; apply (Q_generic s t); auto. intros c0 e x; congruence.
     + destruct (efut s e); cbn [fst]; exact Q.
 Qed.
+
+(* ====================================================================================================== *)
+(*  known finding F18: unless a notification is handed over to a later arrival, every set event carries a  *)
+(*  notification issued by a notify call made after its wait() began                                      *)
+(* ====================================================================================================== *)
+Definition HI (es : eid -> bool) (hor : eid -> nat) (nl : list nat) : Prop :=
+  forall e, es e = true -> e < hor e /\ In (hor e) nl.
+
+Definition HInv (s : cst) : Prop := HI (eset s) (horizon s) (nlog s).
+
+Lemma notify_loop_h n c hz : forall s,
+  EvInv s -> (forall e, In e (cwaiters s c) -> e < hz) -> In hz (nlog s) -> HInv s ->
+  HInv (notify_loop n c hz s).
+Proof.
+  induction n as [|k IH]; intros s V Hq Hn H; cbn [notify_loop]; [exact H|].
+  destruct (cwaiters s c) as [|e r] eqn:Ecw; [exact H|].
+  destruct V as [V C].
+  assert (Hin : In e (cwaiters s c)) by (rewrite Ecw; now left).
+  destruct (V_q _ _ _ _ _ _ _ _ V c e Hin) as (Hes & _).
+  rewrite (do_set_unset (with_cw s c r) e hz) by (cnorm; exact Hes). cnorm.
+  apply IH.
+  - unfold EvInv. cnorm. split; [apply S_set_head; assumption|]. rewrite app_length. cbn. lia.
+  - cnorm. rewrite upd_same. intros x Hx. apply Hq. now right.
+  - cnorm. exact Hn.
+  - unfold HInv, HI. cnorm. intros x Hx. destruct (Nat.eq_dec x e) as [->|Hne].
+    + rewrite upd_same. split; [apply Hq; now left|exact Hn].
+    + rewrite upd_other in Hx by assumption. rewrite upd_other by assumption. apply H, Hx.
+Qed.
+
+Lemma do_notify_h s c n : EvInv s -> HInv s -> HInv (do_notify s c n).
+Proof.
+  intros V H. unfold do_notify. apply notify_loop_h.
+  - exact V.
+  - cnorm. intros e He. destruct V as [V _]. destruct (V_q _ _ _ _ _ _ _ _ V c e He) as (_ & t & Ht).
+    eapply (V_fresh _ _ _ _ _ _ _ _ V); eauto.
+  - cnorm. apply in_or_app. right. now left.
+  - unfold HInv, HI in *. cnorm. intros e He. destruct (H e He) as [H1 H2]. split; [exact H1|].
+    apply in_or_app. now left.
+Qed.
+
+Lemma acquire_begin_h s oc t o :
+  eset (fst (acquire_begin s oc t o)) = eset s /\ horizon (fst (acquire_begin s oc t o)) = horizon s /\
+  nlog (fst (acquire_begin s oc t o)) = nlog s.
+Proof. unfold acquire_begin. destruct (Lock.step _ _) as [l' r]. destruct r; cbn; auto. Qed.
+
+Lemma cstep_hinv s o :
+  variant s = 0 -> LkInv s -> EvInv s -> HInv s -> late_handover s o = false -> HInv (fst (cstep s o)).
+Proof.
+  intros Hv K V H Hn. unfold LkInv in K.
+  destruct o as [c t|c t|c t|c t n|c t|c t|t|t|t|t|t|t]; cbn [cstep].
+  - destruct (negb _); [exact H|]. unfold HInv. destruct (acquire_begin_h s (Some c) t (AcqBegin t)) as (-> & -> & ->). exact H.
+  - destruct (negb _); [exact H|]. unfold HInv. destruct (acquire_begin_h s (Some c) t (AcqNowait t)) as (-> & -> & ->). exact H.
+  - destruct (negb _); [exact H|]. destruct (Lock.step _ _) as [l' r]. destruct r; exact H.
+  - destruct (negb _); [exact H|]. destruct (holder_check _ _ _); [|exact H]. now apply do_notify_h.
+  - destruct (negb _); [exact H|]. destruct (holder_check _ _ _); [|exact H]. now apply do_notify_h.
+  - (* CWait *)
+    destruct (c_is_idle (cphase_of s t)) eqn:Ei; cbn [negb fst]; [|exact H].
+    destruct (holder_check s c t); [|exact H].
+    assert (H1 : HI (upd (eset s) (nev s) false) (horizon s) (nlog s)).
+    { intros e He. destruct (Nat.eq_dec e (nev s)) as [->|Hne]; [rewrite upd_same in He; discriminate|].
+      rewrite upd_other in He by assumption. apply H, He. }
+    destruct (Lock.step _ _) as [l' r]. destruct r; cbn [fst]; unfold HInv; cnorm; exact H1.
+  - destruct (negb _); [exact H|]. unfold HInv. destruct (acquire_begin_h s None t (AcqBegin t)) as (-> & -> & ->). exact H.
+  - destruct (negb _); [exact H|]. unfold HInv. destruct (acquire_begin_h s None t (AcqNowait t)) as (-> & -> & ->). exact H.
+  - destruct (negb _); [exact H|]. destruct (Lock.step _ _) as [l' r]. exact H.
+  - (* CResume *)
+    cbn [late_handover] in Hn.
+    destruct (cphase_of s t) as [|oc|c e|c e exc] eqn:Ep; [exact H| | |].
+    + destruct (Lock.step _ _) as [l' r]. destruct r; exact H.
+    + assert (Hfin : forall s1 x l' r, HInv s1 -> HInv (fst (finish_wait s1 t c e x l' r))).
+      { intros s1 x l' r H1. unfold HInv.
+        destruct (finish_wait_ev s1 t c e x l' r) as (_ & -> & _ & _ & _ & _ & _ & _ & _ & -> & ->). exact H1. }
+      assert (Hs0 : HInv (with_lk s (set_mustc (lk s) t false))) by exact H.
+      assert (Hint : (efut s e = FCancelled \/ (efut s e = FSet /\ mustc (lk s) t = true)) ->
+                     HInv (wait_interrupted (with_lk s (set_mustc (lk s) t false)) c e)).
+      { intros Hi. unfold wait_interrupted. cnorm. destruct (eset s e) eqn:Ees; [|exact H].
+        destruct (cwaiters s c) as [|h q] eqn:Ecw; [exact H|].
+        destruct V as [V _]. assert (Hinq : In h (cwaiters s c)) by (rewrite Ecw; now left).
+        destruct (V_q _ _ _ _ _ _ _ _ V c h Hinq) as (Hesh & _).
+        rewrite (do_set_unset (with_cw (with_lk s (set_mustc (lk s) t false)) c q) h (horizon s e))
+          by (cnorm; exact Hesh).
+        unfold HInv, HI. cnorm.
+        assert (Hlt : h < horizon s e).
+        { destruct Hi as [Hi|[Hi1 Hi2]]; [rewrite Hi in Hn|rewrite Hi1, Hi2 in Hn]; cbn in Hn;
+            apply Nat.leb_gt in Hn; exact Hn. }
+        destruct (H e Ees) as [_ Hnl].
+        intros x Hx. destruct (Nat.eq_dec x h) as [->|Hne].
+        - rewrite upd_same. auto.
+        - rewrite upd_other in Hx by assumption. rewrite upd_other by assumption. apply H, Hx. }
+      destruct (efut s e) eqn:Ef; [exact H| |].
+      * match goal with |- context [Lock.step ?L ?o] => destruct (Lock.step L o) as [l' r] end.
+        apply Hfin. destruct (mustc (lk s) t) eqn:Em; [apply Hint; auto|exact Hs0].
+      * match goal with |- context [Lock.step ?L ?o] => destruct (Lock.step L o) as [l' r] end.
+        apply Hfin. apply Hint. auto.
+    + destruct (Lock.step _ _) as [l' r]. destruct r; try exact H; unfold HInv;
+        match goal with |- context [finish_wait s t c e exc l' ?r0] =>
+          destruct (finish_wait_ev s t c e exc l' r0) as (_ & -> & _ & _ & _ & _ & _ & _ & _ & -> & ->) end;
+        exact H.
+  - destruct (cphase_of s t) as [|oc|c e|c e exc]; [exact H| | |].
+    + destruct (Lock.step _ _) as [l' r]. exact H.
+    + destruct (efut s e); exact H.
+    + destruct (Lock.step _ _) as [l' r]. exact H.
+  - destruct (cphase_of s t) as [|oc|c e|c e exc]; [exact H| | |exact H].
+    + destruct (phase_of (lk s) t); try exact H. destruct (futs _ _); try exact H.
+      destruct (Lock.step _ _) as [l' r]. exact H.
+    + destruct (efut s e); exact H.
+Qed.
+
+Lemma hinv_init fa : HInv (cinit fa 0).
+Proof. intros e He. discriminate. Qed.
